@@ -2,20 +2,36 @@
   Props/C18.lean — property theorems for C18 (nice / ionice / cpu_affinity / rlimit).
   Only statements the property makes; helper lemmas live in Proofs/C18*.lean.
 
-  `cfg` is built from Generated/C18.lean, which the translator rewrites from /repo's source on
-  every run; `cfg_good` is the proof obligation that breaks when the C packing constant or
-  macros change, when `ionice_set`'s bounds / class set / default change, when the `IOPriority`
-  enum changes, when `rlimit` stops checking `len(limits) != 2` or stops refusing PID 0, when the
-  front end stops raising for a level without a class, stops de-duplicating / sorting, or takes
-  the CPUs for `cpu_affinity([])` from the current mask again.
+  Every theorem here is about `stepPy c` — the call as the caller writes it (arguments as Python
+  objects), in an execution context (entry errno, status file cached by `oneshot()`), against the
+  complete system calls (permission tests included), through the native wrappers with their errno
+  protocol, failure tests and the sizing loop of the affinity getter. `stepPy cfg` is what the
+  driver runs against the real code. The theorems quantify over every configuration `c` that is
+  `Good` and has the EINVAL → ValueError fall-through; `cfg_good` and `cfg_einval_is_valueError`
+  are the proof obligations saying that the configuration the translator extracts from the
+  current source (`cfg`, built from Generated/C18.lean on every run) is such a configuration.
+  `cfg_good` breaks when the C packing constant or macros change, when `ionice_set`'s bounds /
+  class set / default change, when the `IOPriority` enum changes, when `rlimit` stops checking
+  `len(limits) != 2` or stops refusing PID 0, when the front end stops raising for a level without
+  a class, stops sorting the get result, takes the CPUs for `cpu_affinity([])` from anything but
+  `range(1024)`, when a native getter's errno protocol changes, when a native setter stops testing
+  the return value of its system call, or when the sizing loop of the affinity getter changes its
+  first size / retry test / growth.
+
+  The superseded layer `step` (rounds 1–2: a caller permitted everything, no errno protocol, no
+  failure tests, no sizing loop, `cpu_affinity_set` before aebc260) lives in Proofs/C18Step.lean as
+  a proof layer; nothing in this file is stated about it.
 -/
-import PsutilModel.Proofs.C18Ctx
-import PsutilModel.Proofs.C18Py
+import PsutilModel.Proofs.C18Code
 import PsutilModel.Model.C18Gen
 namespace Psutil.C18
 open Spec
 
 theorem cfg_good : cfg.Good := by constructor <;> decide
+
+/-- proof obligation on the translator's fact (fix aebc260): after the diagnosis loop an EINVAL
+    of `sched_setaffinity` is turned into ValueError; dropping that breaks this theorem -/
+theorem cfg_einval_is_valueError : cfg.einvalValueError = true := by decide
 
 /-! ### packing -/
 
@@ -33,134 +49,211 @@ theorem C18_ioprio_roundtrip (cls data : Nat) (hc : cls < 8) (hd : data < 8192) 
 
 /-! ### refinement: whatever the specification promises, the code does -/
 
-/-- For EVERY kernel state, process, and request: when the specification promises an outcome
-    (a get form, a set form with a valid value, one of the listed invalid requests,
-    `cpu_affinity([])`), the model returns exactly that result and leaves exactly that kernel
-    (same per-process states, same log of changes). The only exclusion is the region of the
-    known finding `C18-ineligible-oserror`. -/
-theorem C18_refines (c : Cfg) (hg : c.Good) (k : Kernel) (pid : Nat) (st : PState) (req : Req)
-    (o : Out) (k' : Kernel) (hpid : pid ≠ 0) (hst : k.procs pid = some st) (hwf : WF k st)
-    (hreg : ¬ InFindingRegion k st req)
-    (hs : Spec.expect k pid st req = .promised o k') : step c k pid req = (o, k') := by
-  cases req with
-  | nice v => exact refines_nice c k pid st v o k' hpid hst hs
-  | ionice cls v => exact refines_ionice c hg k pid st cls v o k' hpid hst hs
-  | cpuAffinity cpus => exact refines_affinity c hg k pid st cpus o k' hpid hst hwf hreg hs
-  | rlimit res l => exact refines_rlimit c hg k pid st res l o k' hpid hst hs
+/-- **C18_refines_py.** For EVERY good configuration with the EINVAL fall-through, kernel state,
+    existing process, execution context and request as the caller writes it: when the
+    specification promises an outcome to this caller (`expectPy`: a get form, a set form with a
+    valid value the caller is permitted to set, one of the listed invalid requests,
+    `cpu_affinity([])`), the call yields exactly that result and leaves exactly that kernel (same
+    per-process states, same log of changes). The only exclusion is the region of the finding
+    `C18-huge-cpu-overflowerror` (a CPU number outside the C long range), and only for a
+    configuration without the OverflowError branch. -/
+theorem C18_refines_py (c : Cfg) (hg : c.Good) (hrep : c.einvalValueError = true) (k : Kernel) (pid : Nat)
+    (st : PState) (x : Ctx) (r : PyReq) (o : Out) (k' : Kernel)
+    (hpid : pid ≠ 0) (hst : k.procs pid = some st) (hwf : WF k st)
+    (hreg : c.overflowValueError = true ∨ ¬ OverflowRegion r.erase)
+    (hs : Spec.expectPy k pid st r = .promised o k') : stepPy c k pid x r = (o, k') := by
+  unfold Spec.expectPy at hs
+  split at hs
+  · cases hs
+  · cases hs
+  · rename_i h1 h2
+    rw [stepPy_alive c hst]
+    by_cases hsz : r.Sized
+    · rw [stepPyCore_sized c k pid x r hsz]
+      exact refines_any_context c hg hrep k pid st x _ o k' hpid hst hwf hreg hs
+    · -- an iterator that is not covered by the two silent cases: a non-empty iterator of CPUs
+      cases r with
+      | nice v => exact absurd trivial hsz
+      | ionice a b => exact absurd trivial hsz
+      | cpuAffinity cpus =>
+        cases cpus with
+        | none => exact absurd trivial hsz
+        | some p =>
+          obtain ⟨f, l⟩ := p
+          have hf : f = .iterator := Classical.byContradiction fun hne => hsz hne
+          subst hf
+          have hl : l ≠ [] := fun hl => h1 (by rw [hl])
+          rw [stepPyCore_iterator_nonempty c k pid x l hl]
+          exact refines_any_context c hg hrep k pid st x _ o k' hpid hst hwf hreg hs
+      | rlimit res l =>
+        cases l with
+        | none => exact absurd trivial hsz
+        | some p =>
+          obtain ⟨f, l⟩ := p
+          have hf : f = .iterator := Classical.byContradiction fun hne => hsz hne
+          subst hf
+          exact absurd rfl (h2 res l)
 
-/-! ### get reads the kernel -/
+/-- **C18_refines_code_py.** The refinement for the code as it is (`cfg`), outside the region of
+    the known finding `C18-huge-cpu-overflowerror`. -/
+theorem C18_refines_code_py (k : Kernel) (pid : Nat) (st : PState) (x : Ctx) (r : PyReq) (o : Out) (k' : Kernel)
+    (hpid : pid ≠ 0) (hst : k.procs pid = some st) (hwf : WF k st) (hreg : ¬ OverflowRegion r.erase)
+    (hs : Spec.expectPy k pid st r = .promised o k') : stepPy cfg k pid x r = (o, k') :=
+  C18_refines_py cfg cfg_good cfg_einval_is_valueError k pid st x r o k' hpid hst hwf (Or.inr hreg) hs
 
-theorem C18_get_nice (c : Cfg) (k : Kernel) (pid : Nat) (st : PState) (hpid : pid ≠ 0)
-    (hst : k.procs pid = some st) : step c k pid (.nice none) = (.ok (.int st.nice), k) :=
-  refines_nice c k pid st none _ _ hpid hst rfl
+/-! ### get reads the kernel (every execution context) -/
 
-theorem C18_get_ionice (c : Cfg) (hg : c.Good) (k : Kernel) (pid : Nat) (st : PState) (hpid : pid ≠ 0)
-    (hst : k.procs pid = some st) (hcls : st.ioprio / 8192 ≤ 3) :
-    step c k pid (.ionice none none) = (.ok (.ionice (st.ioprio / 8192) (st.ioprio % 8192)), k) :=
-  refines_ionice c hg k pid st none none _ _ hpid hst (by simp [Spec.expect, hcls])
+/-- `nice()` returns the kernel's value for EVERY nice value (−1, the error sentinel of
+    getpriority(2), included) and EVERY value of errno on entry; needs no privilege -/
+theorem C18_py_get_nice (c : Cfg) (hg : c.Good) (k : Kernel) (pid : Nat) (st : PState) (x : Ctx)
+    (hpid : pid ≠ 0) (hst : k.procs pid = some st) :
+    stepPy c k pid x (.nice none) = (.ok (.int st.nice), k) := by
+  rw [stepPy_alive c hst]
+  show niceGetX c k pid x.errnoIn = _
+  rw [niceGetX_eq c hg]
+  exact step_get_nice c k pid st hpid hst
 
-theorem C18_get_affinity (c : Cfg) (hg : c.Good) (k : Kernel) (pid : Nat) (st : PState) (hpid : pid ≠ 0)
-    (hst : k.procs pid = some st) (hwf : WF k st) :
-    step c k pid (.cpuAffinity none) = (.ok (.cpus st.affinity), k) := by
-  have h := refines_affinity c hg k pid st none _ _ hpid hst hwf (fun h => h) rfl
-  rwa [show Spec.ascending k st.affinity = st.affinity from
-    rangeFilter_contains_self hwf.asc (fun x hx => (hwf.sub x hx).1)] at h
+/-- `ionice()` (ioprio_get(2) reports failure by −1 only); class 4..7 cannot be stored by the kernel -/
+theorem C18_py_get_ionice (c : Cfg) (hg : c.Good) (k : Kernel) (pid : Nat) (st : PState) (x : Ctx)
+    (hpid : pid ≠ 0) (hst : k.procs pid = some st) (hcls : st.ioprio / 8192 ≤ 3) :
+    stepPy c k pid x (.ionice none none) = (.ok (.ionice (st.ioprio / 8192) (st.ioprio % 8192)), k) := by
+  rw [stepPy_alive c hst]
+  show ioniceGetX c k pid x.errnoIn = _
+  rw [ioniceGetX_eq c hg]
+  exact step_get_ionice c hg k pid st hpid hst hcls
 
-theorem C18_get_rlimit (c : Cfg) (hg : c.Good) (k : Kernel) (pid : Nat) (st : PState) (hpid : pid ≠ 0)
-    (hst : k.procs pid = some st) (res : Nat) (hres : res < 16) (s h : Int)
+/-- `cpu_affinity()`: the native getter with its sizing loop (first mask 64 CPUs, EINVAL → twice
+    as many) returns the kernel's mask on every kernel with up to 1024 possible CPU ids -/
+theorem C18_py_get_affinity (c : Cfg) (hg : c.Good) (k : Kernel) (pid : Nat) (st : PState) (x : Ctx)
+    (hpid : pid ≠ 0) (hst : k.procs pid = some st) (hwf : WF k st) :
+    stepPy c k pid x (.cpuAffinity none) = (.ok (.cpus st.affinity), k) := by
+  rw [stepPy_alive c hst]
+  show cpuAffinityX c k pid x none = _
+  have h := step_get_affinity c hg k pid st hpid hst hwf
+  simp only [step, cpuAffinity] at h
+  simp only [cpuAffinityX, cextAffinityGetL_eq c hg k pid _ hwf.ncpu]
+  exact h
+
+/-- `rlimit(res)` for the caller's own processes (or with CAP_SYS_RESOURCE); the resource as int,
+    enum member or bool -/
+theorem C18_py_get_rlimit (c : Cfg) (hg : c.Good) (hrep : c.einvalValueError = true) (k : Kernel) (pid : Nat)
+    (st : PState) (x : Ctx) (hpid : pid ≠ 0) (hst : k.procs pid = some st) (hwf : WF k st)
+    (rs : Scalar) (res : Nat) (hrs : rs.val = res) (hres : res < 16) (s h : Int)
+    (hperm : Spec.permitted k st (.rlimit res none) = true)
     (hs : Spec.limitToPy (st.rlimits res).1 = some s) (hh : Spec.limitToPy (st.rlimits res).2 = some h) :
-    step c k pid (.rlimit res none) = (.ok (.limits s h), k) :=
-  refines_rlimit c hg k pid st res none _ _ hpid hst (by
-    have : (0 : Int) ≤ (res : Int) ∧ (res : Int) < 16 := by omega
-    simp only [Spec.expect, this, and_self, if_true, Int.toNat_natCast, hs, hh])
+    stepPy c k pid x (.rlimit rs none) = (.ok (.limits s h), k) := by
+  apply C18_refines_py c hg hrep k pid st x _ _ _ hpid hst hwf
+    (Or.inr (not_overflowRegion (fun _ e => by cases e)))
+  rw [expectPy_rlimit_get, hrs, expectP_of_permitted hperm]
+  have : (0 : Int) ≤ (res : Int) ∧ (res : Int) < 16 := by omega
+  simp only [Spec.expect, this, and_self, if_true, Int.toNat_natCast, hs, hh]
 
 /-! ### set, then get -/
 
-theorem C18_set_then_get_nice (c : Cfg) (k : Kernel) (pid : Nat) (st : PState) (v : Int)
-    (hpid : pid ≠ 0) (hst : k.procs pid = some st) (hv : -20 ≤ v ∧ v ≤ 19) :
-    ∃ k', step c k pid (.nice (some v)) = (.ok .none, k') ∧
-      k'.procs pid = some { st with nice := v } ∧
-      step c k' pid (.nice none) = (.ok (.int v), k') := by
-  refine ⟨Spec.replaced k pid { st with nice := v } (.nice pid v),
-    refines_nice c k pid st (some v) _ _ hpid hst (by simp [Spec.expect, hv]), ?_, ?_⟩
-  · exact replaced_self _ _ _ _
-  · exact C18_get_nice c _ pid _ hpid (replaced_self _ _ _ _)
+/-- every nice value −20..19 the caller is permitted to set: the call succeeds, the kernel state of
+    that process is the old one with exactly the nice value replaced, exactly one change is logged,
+    and `nice()` — in any context — returns the value -/
+theorem C18_py_set_then_get_nice (c : Cfg) (hg : c.Good) (hrep : c.einvalValueError = true) (k : Kernel)
+    (pid : Nat) (st : PState) (x : Ctx) (v : Scalar) (hpid : pid ≠ 0) (hst : k.procs pid = some st)
+    (hwf : WF k st) (hv : -20 ≤ v.val ∧ v.val ≤ 19)
+    (hperm : Spec.permitted k st (.nice (some v.val)) = true) :
+    ∃ k', stepPy c k pid x (.nice (some v)) = (.ok .none, k') ∧
+      k'.procs pid = some { st with nice := v.val } ∧ k'.log = k.log ++ [.nice pid v.val] ∧
+      ∀ x', stepPy c k' pid x' (.nice none) = (.ok (.int v.val), k') := by
+  refine ⟨Spec.replaced k pid { st with nice := v.val } (.nice pid v.val), ?_, replaced_self _ _ _ _, rfl, ?_⟩
+  · apply C18_refines_py c hg hrep k pid st x _ _ _ hpid hst hwf
+      (Or.inr (not_overflowRegion (fun _ e => by cases e)))
+    rw [expectPy_nice]
+    show Spec.expectP k pid st (.nice (some v.val)) = _
+    rw [expectP_of_permitted hperm]
+    simp [Spec.expect, hv]
+  · intro x'
+    exact C18_py_get_nice c hg _ pid _ x' hpid (replaced_self _ _ _ _)
 
-/-- the values `ionice(ioclass, value)` accepts: RT/BE with a level 0..7 (or none = 0),
-    NONE/IDLE with no level -/
-def ValidIonice (cls : Int) (value : Option Int) : Prop :=
-  ((cls = 1 ∨ cls = 2) ∧ 0 ≤ value.getD 0 ∧ value.getD 0 ≤ 7) ∨ ((cls = 0 ∨ cls = 3) ∧ value.getD 0 = 0)
-
-theorem C18_set_then_get_ionice (c : Cfg) (hg : c.Good) (k : Kernel) (pid : Nat) (st : PState)
-    (cls : Int) (value : Option Int) (hpid : pid ≠ 0) (hst : k.procs pid = some st)
-    (hv : ValidIonice cls value) :
-    ∃ k', step c k pid (.ionice (some cls) value) = (.ok .none, k') ∧
-      k'.procs pid = some { st with ioprio := cls.toNat * 8192 + (value.getD 0).toNat } ∧
-      step c k' pid (.ionice none none) = (.ok (.ionice cls.toNat (value.getD 0).toNat), k') := by
-  have h1 : 0 ≤ cls ∧ cls ≤ 3 := by unfold ValidIonice at hv; omega
-  have h2 : ¬ (value.getD 0 < 0 ∨ value.getD 0 > 7) := by unfold ValidIonice at hv; omega
-  have h3 : ¬ ((cls = 0 ∨ cls = 3) ∧ value.getD 0 ≠ 0) := by unfold ValidIonice at hv; omega
-  refine ⟨Spec.replaced k pid { st with ioprio := Spec.ioprioValue cls.toNat (value.getD 0).toNat }
-        (.ioprio pid (Spec.ioprioValue cls.toNat (value.getD 0).toNat)),
-    refines_ionice c hg k pid st (some cls) value _ _ hpid hst
-    (by simp only [Spec.expect, h1, and_self, if_true, h2, if_false, h3]), ?_, ?_⟩
+/-- every valid `ionice(ioclass, value)` (`ValidIonice`: RT/BE with a level 0..7 or none, NONE/IDLE
+    without a level; class and level as int / `IOPRIO_CLASS_*` member / bool) the caller is permitted -/
+theorem C18_py_set_then_get_ionice (c : Cfg) (hg : c.Good) (hrep : c.einvalValueError = true) (k : Kernel)
+    (pid : Nat) (st : PState) (x : Ctx) (cls : Scalar) (value : Option Scalar) (hpid : pid ≠ 0)
+    (hst : k.procs pid = some st) (hwf : WF k st) (hv : ValidIonice cls.val (value.map Scalar.val))
+    (hperm : Spec.permitted k st (.ionice (some cls.val) (value.map Scalar.val)) = true) :
+    ∃ k', stepPy c k pid x (.ionice (some cls) value) = (.ok .none, k') ∧
+      k'.procs pid = some { st with ioprio := cls.val.toNat * 8192 + ((value.map Scalar.val).getD 0).toNat } ∧
+      k'.log = k.log ++ [.ioprio pid (cls.val.toNat * 8192 + ((value.map Scalar.val).getD 0).toNat)] ∧
+      ∀ x', stepPy c k' pid x' (.ionice none none) =
+        (.ok (.ionice cls.val.toNat ((value.map Scalar.val).getD 0).toNat), k') := by
+  generalize hvv : value.map Scalar.val = vv at hv hperm ⊢
+  generalize hcc : cls.val = cc at hv hperm ⊢
+  have h1 : 0 ≤ cc ∧ cc ≤ 3 := by unfold ValidIonice at hv; omega
+  have h2 : ¬ (vv.getD 0 < 0 ∨ vv.getD 0 > 7) := by unfold ValidIonice at hv; omega
+  have h3 : ¬ ((cc = 0 ∨ cc = 3) ∧ vv.getD 0 ≠ 0) := by unfold ValidIonice at hv; omega
+  refine ⟨Spec.replaced k pid { st with ioprio := Spec.ioprioValue cc.toNat (vv.getD 0).toNat }
+        (.ioprio pid (Spec.ioprioValue cc.toNat (vv.getD 0).toNat)), ?_, ?_, ?_, ?_⟩
+  · apply C18_refines_py c hg hrep k pid st x _ _ _ hpid hst hwf
+      (Or.inr (not_overflowRegion (fun _ e => by cases e)))
+    rw [expectPy_ionice]
+    show Spec.expectP k pid st (.ionice (some cls.val) (value.map Scalar.val)) = _
+    rw [hvv, hcc, expectP_of_permitted hperm]
+    simp only [Spec.expect, h2, if_false, h1, and_self, if_true, h3]
   · simp [Spec.replaced, Spec.ioprioValue]
-  · have hget := C18_get_ionice c hg
-      (Spec.replaced k pid { st with ioprio := Spec.ioprioValue cls.toNat (value.getD 0).toNat }
-        (.ioprio pid (Spec.ioprioValue cls.toNat (value.getD 0).toNat))) pid
-      { st with ioprio := Spec.ioprioValue cls.toNat (value.getD 0).toNat } hpid
+  · simp [Spec.replaced, Spec.ioprioValue]
+  · intro x'
+    have hget := C18_py_get_ionice c hg
+      (Spec.replaced k pid { st with ioprio := Spec.ioprioValue cc.toNat (vv.getD 0).toNat }
+        (.ioprio pid (Spec.ioprioValue cc.toNat (vv.getD 0).toNat))) pid
+      { st with ioprio := Spec.ioprioValue cc.toNat (vv.getD 0).toNat } x' hpid
       (replaced_self _ _ _ _) (by simp only [Spec.ioprioValue]; omega)
-    have e1 : Spec.ioprioValue cls.toNat (value.getD 0).toNat / 8192 = cls.toNat := by
+    have e1 : Spec.ioprioValue cc.toNat (vv.getD 0).toNat / 8192 = cc.toNat := by
       simp only [Spec.ioprioValue]; omega
-    have e2 : Spec.ioprioValue cls.toNat (value.getD 0).toNat % 8192 = (value.getD 0).toNat := by
+    have e2 : Spec.ioprioValue cc.toNat (vv.getD 0).toNat % 8192 = (vv.getD 0).toNat := by
       simp only [Spec.ioprioValue]; omega
     simp only [e1, e2] at hget
     exact hget
 
-/-- a CPU list every element of which is an eligible CPU of the process -/
-def ValidCpus (k : Kernel) (st : PState) (cpus : List Int) : Prop :=
-  cpus ≠ [] ∧ ∀ x ∈ cpus, 0 ≤ x ∧ x.toNat < k.ncpu ∧ x.toNat ∈ st.cpuset
-
-theorem C18_set_then_get_affinity (c : Cfg) (hg : c.Good) (k : Kernel) (pid : Nat) (st : PState)
-    (cpus : List Int) (hpid : pid ≠ 0) (hst : k.procs pid = some st) (hwf : WF k st)
-    (hv : ValidCpus k st cpus) :
-    ∃ k' a, step c k pid (.cpuAffinity (some cpus)) = (.ok .none, k') ∧
-      k'.procs pid = some { st with affinity := a } ∧
-      Asc a ∧ (∀ x : Nat, x ∈ a ↔ (x : Int) ∈ cpus) ∧
-      step c k' pid (.cpuAffinity none) = (.ok (.cpus a), k') := by
+/-- every non-empty list of eligible CPUs (`ValidCpus`; duplicates, any order; handed over as list,
+    tuple, set, range or iterator) on a process the caller may change: the call succeeds, the mask
+    of that process becomes exactly those CPUs (ascending `a` with the same members), one change is
+    logged, and `cpu_affinity()` — in any context — returns `a` -/
+theorem C18_py_set_then_get_affinity (c : Cfg) (hg : c.Good) (hrep : c.einvalValueError = true) (k : Kernel)
+    (pid : Nat) (st : PState) (x : Ctx) (f : CpuForm) (cpus : List Int) (hpid : pid ≠ 0)
+    (hst : k.procs pid = some st) (hwf : WF k st) (hv : ValidCpus k st cpus)
+    (hperm : Spec.permitted k st (.cpuAffinity (some cpus)) = true) :
+    ∃ k' a, stepPy c k pid x (.cpuAffinity (some (f, cpus))) = (.ok .none, k') ∧
+      k'.procs pid = some { st with affinity := a } ∧ k'.log = k.log ++ [.affinity pid a] ∧
+      Asc a ∧ (∀ y : Nat, y ∈ a ↔ (y : Int) ∈ cpus) ∧
+      ∀ x', stepPy c k' pid x' (.cpuAffinity none) = (.ok (.cpus a), k') := by
   obtain ⟨hne, hall⟩ := hv
   have hemp : cpus.isEmpty = false := by
     cases cpus with
     | nil => exact absurd rfl hne
     | cons _ _ => rfl
-  have hallb : (cpus.all fun x => decide (0 ≤ x) && (Spec.eligible k st).contains x.toNat) = true := by
+  have hallb : (cpus.all fun y => decide (0 ≤ y) && (Spec.eligible k st).contains y.toNat) = true := by
     rw [List.all_eq_true]
-    intro x hx
-    obtain ⟨h0, h1, h2⟩ := hall x hx
+    intro y hy
+    obtain ⟨h0, h1, h2⟩ := hall y hy
     simp only [Bool.and_eq_true, decide_eq_true_eq, List.contains_iff_mem]
     exact ⟨h0, (mem_eligible k st _).2 ⟨h1, h2⟩⟩
-  have hreg : ¬ InFindingRegion k st (.cpuAffinity (some cpus)) := by
-    rintro ⟨_, h, _⟩
-    cases hc : cpus with
-    | nil => exact hne hc
-    | cons y _ => exact (h y (by simp [hc])).2.2 (hall y (by simp [hc])).2.2
-  have hmem : ∀ x : Nat, x ∈ Spec.ascending k (cpus.map Int.toNat) ↔ (x : Int) ∈ cpus := by
-    intro x
+  have hlong : AllLong cpus := by
+    intro y hy
+    obtain ⟨h0, h1, _⟩ := hall y hy
+    have := hwf.ncpu
+    simp only [fitsCLong, decide_eq_true_eq]; omega
+  have hmem : ∀ y : Nat, y ∈ Spec.ascending k (cpus.map Int.toNat) ↔ (y : Int) ∈ cpus := by
+    intro y
     simp only [Spec.ascending, List.mem_filter, List.mem_range, List.contains_iff_mem, List.mem_map]
     constructor
-    · rintro ⟨_, y, hy, rfl⟩
-      rw [Int.toNat_of_nonneg (hall y hy).1]; exact hy
-    · intro hx
-      have := hall _ hx
-      exact ⟨by simpa using this.2.1, (x : Int), hx, by simp⟩
+    · rintro ⟨_, z, hz, rfl⟩
+      rw [Int.toNat_of_nonneg (hall z hz).1]; exact hz
+    · intro hy
+      have := hall _ hy
+      exact ⟨by simpa using this.2.1, (y : Int), hy, by simp⟩
   have hwf' : WF (Spec.replaced k pid { st with affinity := Spec.ascending k (cpus.map Int.toNat) }
       (.affinity pid (Spec.ascending k (cpus.map Int.toNat))))
       { st with affinity := Spec.ascending k (cpus.map Int.toNat) } := by
     refine ⟨hwf.ncpu, asc_rangeFilter _ _, ?_, ?_, hwf.ioprio, hwf.rl, hwf.stat⟩
-    · intro x hx
-      have hx' := (hmem x).1 hx
-      have := hall _ hx'
-      show x < k.ncpu ∧ x ∈ st.cpuset
+    · intro y hy
+      have hy' := (hmem y).1 hy
+      have := hall _ hy'
+      show y < k.ncpu ∧ y ∈ st.cpuset
       simpa using this.2
     · cases hc : cpus with
       | nil => exact absurd hc hne
@@ -174,556 +267,206 @@ theorem C18_set_then_get_affinity (c : Cfg) (hg : c.Good) (k : Kernel) (pid : Na
         rw [h] at this; cases this
   refine ⟨Spec.replaced k pid { st with affinity := Spec.ascending k (cpus.map Int.toNat) }
       (.affinity pid (Spec.ascending k (cpus.map Int.toNat))), Spec.ascending k (cpus.map Int.toNat),
-    refines_affinity c hg k pid st (some cpus) _ _ hpid hst hwf hreg
-    (by simp only [Spec.expect, hemp, Bool.false_eq_true, if_false, hallb, if_true]), ?_,
-    asc_rangeFilter _ _, hmem, ?_⟩
-  · exact replaced_self _ _ _ _
-  · exact C18_get_affinity c hg _ pid _ hpid (replaced_self _ _ _ _) hwf'
+    ?_, replaced_self _ _ _ _, rfl, asc_rangeFilter _ _, hmem, ?_⟩
+  · refine C18_refines_py c hg hrep k pid st x (.cpuAffinity (some (f, cpus))) _ _ hpid hst hwf
+      (Or.inr (not_overflowRegion_long hlong)) ?_
+    rw [expectPy_affinity_set k pid st f cpus (Or.inr hne), expectP_of_permitted hperm]
+    simp only [Spec.expect, hemp, Bool.false_eq_true, if_false, hallb, if_true]
+  · intro x'
+    exact C18_py_get_affinity c hg _ pid _ x' hpid (replaced_self _ _ _ _) hwf'
 
-/-- limits the statement quantifies over: a pair `soft ≤ hard` of values below 2^63 or
-    RLIM_INFINITY (−1), which this caller is allowed to set (`fs.nr_open` for NOFILE; raising
-    the hard limit needs CAP_SYS_RESOURCE) -/
-def ValidLimits (k : Kernel) (st : PState) (res : Nat) (s h : Int) (s' h' : Nat) : Prop :=
-  res < 16 ∧ Spec.limitOfPy s = some s' ∧ Spec.limitOfPy h = some h' ∧ s' ≤ h' ∧
-    (res = 7 → h' ≤ k.nrOpen) ∧ (k.capResource = true ∨ h' ≤ (st.rlimits res).2)
-
-theorem C18_set_then_get_rlimit (c : Cfg) (hg : c.Good) (k : Kernel) (pid : Nat) (st : PState)
-    (res : Nat) (s h : Int) (s' h' : Nat) (hpid : pid ≠ 0) (hst : k.procs pid = some st)
-    (hv : ValidLimits k st res s h s' h') :
-    ∃ k', step c k pid (.rlimit res (some [s, h])) = (.ok .none, k') ∧
+/-- every pair of limits the statement quantifies over (`ValidLimits`: soft ≤ hard, values below
+    2^63 or RLIM_INFINITY, which this caller is allowed to set: `fs.nr_open` for NOFILE, raising the
+    hard limit needs CAP_SYS_RESOURCE), handed over as tuple or list, resource as int / enum / bool -/
+theorem C18_py_set_then_get_rlimit (c : Cfg) (hg : c.Good) (hrep : c.einvalValueError = true) (k : Kernel)
+    (pid : Nat) (st : PState) (x : Ctx) (rs : Scalar) (res : Nat) (f : LimForm) (s h : Int) (s' h' : Nat)
+    (hpid : pid ≠ 0) (hst : k.procs pid = some st) (hwf : WF k st) (hrs : rs.val = res) (hf : f ≠ .iterator)
+    (hv : ValidLimits k st res s h s' h')
+    (hperm : Spec.permitted k st (.rlimit res none) = true) :
+    ∃ k', stepPy c k pid x (.rlimit rs (some (f, [s, h]))) = (.ok .none, k') ∧
       k'.procs pid = some { st with rlimits := fun r => if r = res then (s', h') else st.rlimits r } ∧
-      step c k' pid (.rlimit res none) = (.ok (.limits s h), k') := by
+      k'.log = k.log ++ [.rlimit pid res s' h'] ∧
+      ∀ x', stepPy c k' pid x' (.rlimit rs none) = (.ok (.limits s h), k') := by
   obtain ⟨hr, hs, hh, hle, hno, hcap⟩ := hv
   have hres : (0 : Int) ≤ (res : Int) ∧ (res : Int) < 16 := by omega
   have hno' : ((res : Int) = 7 → h' ≤ k.nrOpen) := fun e => hno (by omega)
+  have hperm' : Spec.permitted k st (.rlimit res (some [s, h])) = true := hperm
   refine ⟨Spec.replaced k pid { st with rlimits := fun r => if r = res then (s', h') else st.rlimits r }
-      (.rlimit pid res s' h'),
-    refines_rlimit c hg k pid st res (some [s, h]) _ _ hpid hst
-    (by
-      simp only [Spec.expect, hres, and_self, if_true, hs, hh, Int.toNat_natCast]
-      rw [if_pos ⟨hle, hno', hcap⟩]), ?_, ?_⟩
-  · exact replaced_self _ _ _ _
-  · refine C18_get_rlimit c hg _ pid _ hpid (replaced_self _ _ _ _) res hr s h ?_ ?_
+      (.rlimit pid res s' h'), ?_, replaced_self _ _ _ _, rfl, ?_⟩
+  · apply C18_refines_py c hg hrep k pid st x _ _ _ hpid hst hwf
+      (Or.inr (not_overflowRegion (fun _ e => by cases f <;> cases e)))
+    rw [expectPy_rlimit_set k pid st rs f _ hf, hrs, expectP_of_permitted hperm']
+    simp only [Spec.expect, hres, and_self, if_true, hs, hh, Int.toNat_natCast]
+    rw [if_pos ⟨hle, hno', hcap⟩]
+  · intro x'
+    have hwf' : WF (Spec.replaced k pid { st with rlimits := fun r => if r = res then (s', h') else st.rlimits r }
+        (.rlimit pid res s' h')) { st with rlimits := fun r => if r = res then (s', h') else st.rlimits r } := by
+      refine ⟨hwf.ncpu, hwf.asc, hwf.sub, hwf.ne, hwf.ioprio, ?_, hwf.stat⟩
+      intro r
+      show (if r = res then (s', h') else st.rlimits r).1 < _ ∧ (if r = res then (s', h') else st.rlimits r).2 < _
+      split
+      · exact ⟨limitOfPy_lt hs, limitOfPy_lt hh⟩
+      · exact hwf.rl r
+    refine C18_py_get_rlimit c hg hrep _ pid _ x' hpid (replaced_self _ _ _ _) hwf' rs res hrs hr s h hperm ?_ ?_
     · simp only [if_true]; exact limitToPy_limitOfPy hs
     · simp only [if_true]; exact limitToPy_limitOfPy hh
 
 /-! ### nothing else changes -/
 
-/-- no call on `Process(pid)` — valid or not, whatever the configuration — changes the state
-    of another process or a kernel parameter -/
-theorem C18_others_unchanged (c : Cfg) (k : Kernel) (pid : Nat) (hpid : pid ≠ 0) (req : Req) :
-    (∀ q, q ≠ pid → (step c k pid req).2.procs q = k.procs q) ∧
-    (step c k pid req).2.ncpu = k.ncpu ∧ (step c k pid req).2.nrOpen = k.nrOpen ∧
-    (step c k pid req).2.capResource = k.capResource ∧ (step c k pid req).2.self = k.self :=
-  let f := frame_step c k hpid req
-  ⟨f.others, f.ncpu, f.nrOpen, f.cap, f.self⟩
+/-- no call — any request in any form, valid or not, any context, any configuration, any caller —
+    changes the state of another process or a kernel parameter -/
+theorem C18_py_others_unchanged (c : Cfg) (k : Kernel) (pid : Nat) (hpid : pid ≠ 0) (x : Ctx) (r : PyReq) :
+    (∀ q, q ≠ pid → (stepPy c k pid x r).2.procs q = k.procs q) ∧
+    (stepPy c k pid x r).2.ncpu = k.ncpu ∧ (stepPy c k pid x r).2.nrOpen = k.nrOpen ∧
+    (stepPy c k pid x r).2.capResource = k.capResource ∧ (stepPy c k pid x r).2.capNice = k.capNice ∧
+    (stepPy c k pid x r).2.self = k.self :=
+  let f := frame_stepPy c k hpid x r
+  ⟨f.others, f.ncpu, f.nrOpen, f.cap, f.capNice, f.self⟩
 
-/-- a valid set replaces exactly the requested attribute of that process and logs exactly one
-    change (read off the specification, which `C18_refines` shows the code meets) -/
-theorem C18_set_changes_only_that (c : Cfg) (hg : c.Good) (k : Kernel) (pid : Nat) (st : PState)
-    (v : Int) (hpid : pid ≠ 0) (hst : k.procs pid = some st) (hv : -20 ≤ v ∧ v ≤ 19) :
-    ∀ st', (step c k pid (.nice (some v))).2.procs pid = some st' →
-      st'.ioprio = st.ioprio ∧ st'.affinity = st.affinity ∧ st'.cpuset = st.cpuset ∧
-      st'.rlimits = st.rlimits ∧ (step c k pid (.nice (some v))).2.log = k.log ++ [.nice pid v] := by
-  have _ := hg
-  rw [refines_nice c k pid st (some v) (.ok .none) (Spec.replaced k pid { st with nice := v } (.nice pid v))
-    hpid hst (by simp [Spec.expect, hv])]
-  intro st' h
-  rw [replaced_self] at h
-  simp only [Option.some.injEq] at h
-  subst h
-  exact ⟨rfl, rfl, rfl, rfl, rfl⟩
+/-- **C18_exception_no_effect.** EVERY call that raises — whatever the request, the forms of its
+    arguments, the configuration, the kernel, the caller's privileges, the context, valid or not,
+    listed in the statement or not (privilege failures, overflowing ints, unknown classes, a
+    vanished process …) — leaves the kernel exactly as it was: same state of every process, empty
+    effect log. -/
+theorem C18_exception_no_effect (c : Cfg) (k : Kernel) (pid : Nat) (x : Ctx) (r : PyReq) (e : Exc) (k' : Kernel)
+    (h : stepPy c k pid x r = (.exc e, k')) : k' = k := by
+  have := excKeeps_stepPy c k pid x r e (by rw [h])
+  rw [h] at this
+  exact this
 
 /-! ### invalid requests: ValueError, nothing changes -/
 
-/-- level outside 0..7; a level for the idle/none class; a level without a class; limits that
-    are not a pair: ValueError and the very same kernel (state and effect log untouched) -/
-theorem C18_invalid_ValueError_no_effect (c : Cfg) (hg : c.Good) (k : Kernel) (pid : Nat) (st : PState)
-    (hpid : pid ≠ 0) (hst : k.procs pid = some st) :
-    (∀ cls value, 0 ≤ cls ∧ cls ≤ 3 → (Option.getD value 0 < 0 ∨ Option.getD value 0 > 7) →
-      step c k pid (.ionice (some cls) value) = (.exc .valueError, k)) ∧
-    (∀ cls value, (cls = 0 ∨ cls = 3) → Option.getD value 0 ≠ 0 →
-      step c k pid (.ionice (some cls) value) = (.exc .valueError, k)) ∧
-    (∀ value, step c k pid (.ionice none (some value)) = (.exc .valueError, k)) ∧
-    (∀ res limits, List.length limits ≠ 2 →
-      step c k pid (.rlimit res (some limits)) = (.exc .valueError, k)) := by
-  refine ⟨fun cls value h1 h2 => ?_, fun cls value h1 h2 => ?_, fun value => ?_, fun res limits h => ?_⟩
-  · exact refines_ionice c hg k pid st (some cls) value _ _ hpid hst
-      (by simp only [Spec.expect, h1, and_self, if_true, h2])
-  · by_cases h3 : Option.getD value 0 < 0 ∨ Option.getD value 0 > 7
-    · exact refines_ionice c hg k pid st (some cls) value _ _ hpid hst
-        (by
-          have : 0 ≤ cls ∧ cls ≤ 3 := by omega
-          simp only [Spec.expect, this, and_self, if_true, h3])
-    · exact refines_ionice c hg k pid st (some cls) value _ _ hpid hst
-        (by
-          have : 0 ≤ cls ∧ cls ≤ 3 := by omega
-          simp only [Spec.expect, this, and_self, if_true, h3, if_false, h1, h2, ne_eq, not_false_eq_true])
-  · exact refines_ionice c hg k pid st none (some value) _ _ hpid hst rfl
-  · refine refines_rlimit c hg k pid st res (some limits) _ _ hpid hst ?_
-    match limits, h with
-    | [], _ => rfl
-    | [_], _ => rfl
-    | _ :: _ :: _ :: _, _ => rfl
+/-- level outside 0..7 (WHATEVER the class); a level for the idle/none class; a level without a
+    class; limits (tuple or list) that are not a pair: ValueError and the very same kernel — for
+    every caller, privileged or not (the tests come before any system call), every argument form -/
+theorem C18_py_invalid_ValueError_no_effect (c : Cfg) (hg : c.Good) (k : Kernel) (pid : Nat) (st : PState)
+    (x : Ctx) (hpid : pid ≠ 0) (hst : k.procs pid = some st) :
+    (∀ (cls : Scalar) (value : Option Scalar),
+      ((value.map Scalar.val).getD 0 < 0 ∨ (value.map Scalar.val).getD 0 > 7) →
+      stepPy c k pid x (.ionice (some cls) value) = (.exc .valueError, k)) ∧
+    (∀ (cls : Scalar) (value : Option Scalar), (cls.val = 0 ∨ cls.val = 3) → (value.map Scalar.val).getD 0 ≠ 0 →
+      stepPy c k pid x (.ionice (some cls) value) = (.exc .valueError, k)) ∧
+    (∀ value : Scalar, stepPy c k pid x (.ionice none (some value)) = (.exc .valueError, k)) ∧
+    (∀ (res : Scalar) (f : LimForm) (limits : List Int), f ≠ .iterator → limits.length ≠ 2 →
+      stepPy c k pid x (.rlimit res (some (f, limits))) = (.exc .valueError, k)) := by
+  refine ⟨fun cls value h => ?_, fun cls value h1 h2 => ?_, fun value => ?_, fun res f limits hf h => ?_⟩
+  · rw [stepPy_alive c hst]
+    show ioniceSetX c k pid cls.val (value.map Scalar.val) = _
+    simp only [ioniceSetX, hg.dflt, hg.lo, hg.hi, hg.noval]
+    split
+    · rfl
+    · first | rfl | rw [if_pos h]
+  · rw [stepPy_alive c hst]
+    show ioniceSetX c k pid cls.val (value.map Scalar.val) = _
+    simp only [ioniceSetX, hg.dflt, hg.lo, hg.hi, hg.noval]
+    rw [if_pos ⟨h2, (noval_contains _).2 h1⟩]
+  · rw [stepPy_alive c hst]
+    show stepX c k pid x (.ionice none (some value.val)) = _
+    simp [stepX, hg.vwc]
+  · rw [stepPy_alive c hst, stepPyCore_sized c k pid x (.rlimit res (some (f, limits))) hf]
+    show rlimitLX c k pid res.val (some limits) = _
+    simp only [rlimitLX, hpid, false_and, if_false, hg.pair]
+    rw [if_pos h]
 
-/-- the statement at full strength: such a list raises ValueError and changes nothing -/
+/-- the statement about CPU lists at full strength: a non-empty list naming only CPUs that do not
+    exist or that the process may not use (ANY ints, in any form), on a process the caller may
+    change, raises ValueError and changes nothing — in every context -/
 def C18_invalid_cpus_Full (c : Cfg) : Prop :=
-  ∀ (k : Kernel) (pid : Nat) (st : PState) (cpus : List Int), pid ≠ 0 → k.procs pid = some st → WF k st →
-    OnlyUnusableCpus k st cpus → step c k pid (.cpuAffinity (some cpus)) = (.exc .valueError, k)
+  ∀ (k : Kernel) (pid : Nat) (st : PState) (f : CpuForm) (cpus : List Int) (x : Ctx), pid ≠ 0 →
+    k.procs pid = some st → WF k st → Spec.permitted k st (.cpuAffinity (some cpus)) = true →
+    OnlyUnusableAny k st cpus → stepPy c k pid x (.cpuAffinity (some (f, cpus))) = (.exc .valueError, k)
 
-/-- proved part: outside the region of the known finding (i.e. when some listed CPU does not
-    exist, or when the status line starts with a range) the statement holds -/
-theorem C18_invalid_cpus_partial (c : Cfg) (hg : c.Good) (k : Kernel) (pid : Nat) (st : PState)
-    (cpus : List Int) (hpid : pid ≠ 0) (hst : k.procs pid = some st) (hwf : WF k st)
-    (h : OnlyUnusableCpus k st cpus)
-    (hout : (∃ x ∈ cpus, x < 0 ∨ k.ncpu ≤ x.toNat) ∨ statusRange st.affinity ≠ none) :
-    step c k pid (.cpuAffinity (some cpus)) = (.exc .valueError, k) := by
-  refine refines_affinity c hg k pid st (some cpus) _ _ hpid hst hwf ?_ (expect_of_onlyUnusable pid h)
-  rintro ⟨_, hall, hsr⟩
-  rcases hout with ⟨x, hx, hx'⟩ | hout
-  · have := hall x hx; have := hwf.stat; omega
-  · exact hout hsr
+/-- with the OverflowError branch of `fixes/C18-affinity-overflow-valueerror.diff` (fact
+    `affinityOverflowRaisesValueError`) the full statement holds -/
+theorem C18_invalid_cpus_repaired (c : Cfg) (hg : c.Good) (hrep : c.einvalValueError = true)
+    (hov : c.overflowValueError = true) : C18_invalid_cpus_Full c := by
+  intro k pid st f cpus x hpid hst hwf hperm h
+  refine C18_refines_py c hg hrep k pid st x (.cpuAffinity (some (f, cpus))) _ _ hpid hst hwf (Or.inl hov) ?_
+  rw [expectPy_affinity_set k pid st f cpus (Or.inr h.1), expectP_of_permitted hperm]
+  exact expect_of_onlyUnusableAny pid h
 
-/-- the "changes nothing" half holds at full strength, also inside the region of the finding:
-    such a list never changes the kernel, and the call always raises (ValueError, or the
-    kernel's EINVAL passed on as OSError) -/
-theorem C18_invalid_cpus_no_effect (c : Cfg) (k : Kernel) (pid : Nat) (st : PState)
-    (cpus : List Int) (hpid : pid ≠ 0) (hst : k.procs pid = some st) (hn : k.ncpu ≤ 1024)
-    (h : OnlyUnusableCpus k st cpus) :
-    (step c k pid (.cpuAffinity (some cpus))).2 = k ∧
-    ((step c k pid (.cpuAffinity (some cpus))).1 = .exc .valueError ∨
-     (step c k pid (.cpuAffinity (some cpus))).1 = .exc (.osError .EINVAL)) := by
-  obtain ⟨hne, hall⟩ := h
-  have hemp : cpus.isEmpty = false := by
-    cases cpus with
-    | nil => exact absurd rfl hne
-    | cons _ _ => rfl
-  simp only [step, cpuAffinity, hemp, Bool.false_eq_true, if_false]
-  have hl : AllLong cpus := fun v hv => (hall v hv).1
-  have hel : ∃ el, getEligibleCpus k pid = some el := by
-    simp only [getEligibleCpus, hst]
-    split <;> exact ⟨_, rfl⟩
-  obtain ⟨el, hel⟩ := hel
-  by_cases hm1 : (-1 : Int) ∈ cpus
-  · have := cpuSetOfSeq_minus1 (allLong_dedup c hl) ((mem_dedup c cpus _).2 hm1)
-    simp only [cpuAffinitySet, cextAffinitySet, this, hel, true_or, if_true]
-    split <;> simp [wrapExc]
-  · obtain ⟨m, hm, hmem⟩ := cpuSetOfSeq_ok (allLong_dedup c hl) (fun h => hm1 ((mem_dedup c cpus _).1 h))
-    have hmem' : ∀ x : Nat, x ∈ m ↔ (x < 1024 ∧ (x : Int) ∈ cpus) := fun x => by rw [hmem, mem_dedup c]
-    have hgr := granted_eq k st m cpus hn hmem'
-    have hnil : (List.range k.ncpu).filter
-        (fun (x : Nat) => decide ((x : Int) ∈ cpus) && st.cpuset.contains x) = [] := by
-      rw [List.filter_eq_nil_iff]
-      intro x hx
-      have hx' : x < k.ncpu := List.mem_range.1 hx
-      simp only [Bool.and_eq_true, decide_eq_true_eq, List.contains_iff_mem]
-      rintro ⟨h1, h2⟩
-      rcases (hall _ h1).2 with h | h | h
-      · omega
-      · rw [Int.toNat_natCast] at h; omega
-      · rw [Int.toNat_natCast] at h; exact h h2
-    rw [hnil] at hgr
-    simp only [cpuAffinitySet, cextAffinitySet, hm, sysSchedSetaffinity, resolve_pid k hpid, hst, hgr,
-      List.isEmpty_nil, if_true, ofSys, or_true, hel]
-    split <;> simp [wrapExc]
+/-- the code as it is: the statement holds for every such list whose numbers fit a C long
+    (`_partial`: the rest is the known finding `C18-huge-cpu-overflowerror`) -/
+theorem C18_py_invalid_cpus_partial (c : Cfg) (hg : c.Good) (hrep : c.einvalValueError = true) (k : Kernel)
+    (pid : Nat) (st : PState) (f : CpuForm) (cpus : List Int) (x : Ctx) (hpid : pid ≠ 0)
+    (hst : k.procs pid = some st) (hwf : WF k st)
+    (hperm : Spec.permitted k st (.cpuAffinity (some cpus)) = true)
+    (h : OnlyUnusableAny k st cpus) (hl : AllLong cpus) :
+    stepPy c k pid x (.cpuAffinity (some (f, cpus))) = (.exc .valueError, k) := by
+  refine C18_refines_py c hg hrep k pid st x (.cpuAffinity (some (f, cpus))) _ _ hpid hst hwf
+    (Or.inr (not_overflowRegion_long hl)) ?_
+  rw [expectPy_affinity_set k pid st f cpus (Or.inr h.1), expectP_of_permitted hperm]
+  exact expect_of_onlyUnusableAny pid h
 
-/-- the full statement is false of the code (known finding `C18-ineligible-oserror`):
-    `cpu_affinity([2])` on that process raises OSError(EINVAL), not ValueError -/
+/-- the full statement is false of the code as it is (known finding `C18-huge-cpu-overflowerror`):
+    `cpu_affinity([2**63])` names only a nonexistent CPU and raises OverflowError, not ValueError -/
 theorem C18_invalid_cpus_counterexample : ¬ C18_invalid_cpus_Full cfg := by
   intro h
-  have := h kWitness 7 stWitness [2] (by decide) rfl wf_witness ⟨by decide, by decide⟩
-  have h2 : (step cfg kWitness 7 (.cpuAffinity (some [2]))).1 = .exc (.osError .EINVAL) := by decide
+  have := h kWitness 7 stWitness CpuForm.list [9223372036854775808] ⟨0, none⟩ (by decide) rfl wf_witness rfl
+    ⟨by decide, by decide⟩
+  have h2 : (stepPy cfg kWitness 7 ⟨0, none⟩ (.cpuAffinity (some (.list, [9223372036854775808])))).1 =
+      .exc .overflowError := by decide
   rw [this] at h2
   cases h2
+
+/-- … whatever happens there, nothing changes and the exception is one of the two -/
+theorem C18_huge_cpu_raises (c : Cfg) (k : Kernel) (pid : Nat) (st : PState) (x : Ctx) (f : CpuForm)
+    (cpus : List Int) (hst : k.procs pid = some st) (hstat : k.statCpus ≤ 1024) (hnl : ¬ AllLong cpus)
+    (hf : f ≠ .iterator) :
+    (stepPy c k pid x (.cpuAffinity (some (f, cpus)))).2 = k ∧
+    (c.overflowValueError = true → (stepPy c k pid x (.cpuAffinity (some (f, cpus)))).1 = .exc .valueError) := by
+  rw [stepPy_alive c hst, stepPyCore_sized c k pid x (.cpuAffinity (some (f, cpus))) hf]
+  show (stepX c k pid x (.cpuAffinity (some cpus))).2 = k ∧
+    (c.overflowValueError = true → (stepX c k pid x (.cpuAffinity (some cpus))).1 = .exc .valueError)
+  have hemp : cpus.isEmpty = false := by
+    cases cpus with
+    | nil => exact absurd (fun v hv => by cases hv) hnl
+    | cons _ _ => rfl
+  have hnl' : ¬ AllLong (dedup c cpus) := fun h => hnl (fun v hv => h v ((mem_dedup c cpus v).2 hv))
+  obtain ⟨e, he, hor⟩ := cpuSetOfSeq_notLong hnl'
+  refine ⟨?_, fun hov => by rw [stepX_overflow_caught c hov k pid st x cpus hst hstat hnl]⟩
+  have hx := excKeeps_stepX c k pid x (.cpuAffinity (some cpus))
+  cases hr : (stepX c k pid x (.cpuAffinity (some cpus))).1 with
+  | exc e' => exact hx e' hr
+  | ok v =>
+    exfalso
+    simp only [stepX, cpuAffinityX, hemp, Bool.false_eq_true, if_false, cpuAffinitySetP, cextAffinitySetP, he] at hr
+    split at hr
+    · split at hr
+      · cases hr
+      · split at hr
+        · cases hr
+        · split at hr <;> cases hr
+    · cases hr
 
 /-! ### `cpu_affinity([])` -/
 
-theorem C18_empty_selects_all_eligible (c : Cfg) (hg : c.Good) (k : Kernel) (pid : Nat) (st : PState)
-    (hpid : pid ≠ 0) (hst : k.procs pid = some st) (hwf : WF k st) :
-    ∃ k', step c k pid (.cpuAffinity (some [])) = (.ok .none, k') ∧
-      k'.procs pid = some { st with affinity := Spec.eligible k st } ∧
-      ∀ x, x ∈ Spec.eligible k st ↔ x < k.ncpu ∧ x ∈ st.cpuset := by
-  refine ⟨Spec.replaced k pid { st with affinity := Spec.eligible k st } (.affinity pid (Spec.eligible k st)),
-    refines_affinity c hg k pid st (some []) _ _ hpid hst hwf (fun h => h.1 rfl) rfl, ?_,
-    mem_eligible k st⟩
-  exact replaced_self _ _ _ _
-
-/-- the same front end taking the CPUs from `_get_eligible_cpus()` (the unfixed code) -/
-def cfgStatusRange : Cfg := { cfg with emptyAsksAll := none }
-
-/-- why the empty list must not be resolved through `/proc/<pid>/status`: once the mask is
-    `0-1` of four CPUs, `cpu_affinity([])` leaves it at `0-1` -/
-theorem C18_empty_needs_full_mask :
-    ((step cfgStatusRange
-        { kWitness with procs := fun q => if q = 7 then some { stWitness with affinity := [0, 1], cpuset := [0, 1, 2, 3] } else none }
-        7 (.cpuAffinity (some []))).2.procs 7).map (·.affinity) = some [0, 1] := by
-  decide
-
-/-! ### duplicates, order, shape of the result -/
-
-/-- two CPU lists naming the same CPUs (duplicates, any order) have the same effect — under
-    every configuration, i.e. whether or not the front end de-duplicates first -/
-theorem C18_dedup (c : Cfg) (k : Kernel) (pid : Nat) (st : PState) (l l' : List Int)
-    (hpid : pid ≠ 0) (hst : k.procs pid = some st) (hn : k.ncpu ≤ 1024)
-    (hl : AllLong l) (hl' : AllLong l') (hne : l ≠ []) (hne' : l' ≠ [])
-    (hsame : ∀ x, x ∈ l ↔ x ∈ l') :
-    step c k pid (.cpuAffinity (some l)) = step c k pid (.cpuAffinity (some l')) := by
-  have e1 : l.isEmpty = false := by cases l <;> simp_all
-  have e2 : l'.isEmpty = false := by cases l' <;> simp_all
-  simp only [step, cpuAffinity, e1, e2, Bool.false_eq_true, if_false]
-  have hdiag : ∀ el, diagnose (List.range k.statCpus) el (dedup c l) = diagnose (List.range k.statCpus) el (dedup c l') := by
-    intro el
-    rw [Bool.eq_iff_iff, diagnose_true, diagnose_true]
-    constructor
-    · rintro ⟨x, hx, h⟩; exact ⟨x, (mem_dedup c _ _).2 ((hsame x).1 ((mem_dedup c _ _).1 hx)), h⟩
-    · rintro ⟨x, hx, h⟩; exact ⟨x, (mem_dedup c _ _).2 ((hsame x).2 ((mem_dedup c _ _).1 hx)), h⟩
-  by_cases hm : (-1 : Int) ∈ l
-  · have hm' : (-1 : Int) ∈ l' := (hsame _).1 hm
-    have a := cpuSetOfSeq_minus1 (allLong_dedup c hl) ((mem_dedup c l _).2 hm)
-    have b := cpuSetOfSeq_minus1 (allLong_dedup c hl') ((mem_dedup c l' _).2 hm')
-    simp only [cpuAffinitySet, cextAffinitySet, a, b, hdiag]
-  · have hm' : (-1 : Int) ∉ l' := fun h => hm ((hsame _).2 h)
-    obtain ⟨m, a, ha⟩ := cpuSetOfSeq_ok (allLong_dedup c hl) (fun h => hm ((mem_dedup c l _).1 h))
-    obtain ⟨m', b, hb⟩ := cpuSetOfSeq_ok (allLong_dedup c hl') (fun h => hm' ((mem_dedup c l' _).1 h))
-    have ha' : ∀ x : Nat, x ∈ m ↔ (x < 1024 ∧ (x : Int) ∈ l) := fun x => by rw [ha, mem_dedup c]
-    have hb' : ∀ x : Nat, x ∈ m' ↔ (x < 1024 ∧ (x : Int) ∈ l) := fun x => by rw [hb, mem_dedup c, hsame]
-    have hg1 := granted_eq k st m l hn ha'
-    have hg2 := granted_eq k st m' l hn hb'
-    have hsys : sysSchedSetaffinity k pid m = sysSchedSetaffinity k pid m' := by
-      simp only [sysSchedSetaffinity, resolve_pid k hpid, hst, hg1, hg2]
-    simp only [cpuAffinitySet, cextAffinitySet, a, b, hsys, hdiag]
-
-/-- whatever the native layer reports, the get form returns an ascending duplicate-free list -/
-theorem C18_get_sorted_unique (c : Cfg) (hg : c.Good) (k k' : Kernel) (pid : Nat) (l : List Nat)
-    (h : step c k pid (.cpuAffinity none) = (.ok (.cpus l), k')) : l.Pairwise (· < ·) := by
-  simp only [step, cpuAffinity, hg.sorted, if_true] at h
-  split at h
-  · simp only [Prod.mk.injEq, Out.ok.injEq, Val.cpus.injEq] at h
-    rw [← h.1]; exact asc_sortedSet _
-  · simp at h
-
-/-! ### PID 0 -/
-
-/-- `rlimit` never reaches the kernel for PID 0 (where `prlimit` would act on the caller) -/
-theorem C18_rlimit_pid0_refused (c : Cfg) (hg : c.Good) (k : Kernel) (res : Int) (l : Option (List Int)) :
-    step c k 0 (.rlimit res l) = (.exc .valueError, k) := by
-  simp [step, rlimitL, hg.pid0]
-
-/-- why the other theorems assume `pid ≠ 0`: for the kernel PID 0 is the caller -/
-theorem C18_pid0_is_the_caller :
-    ((step cfg { kWitness with self := 7 } 0 (.nice (some 5))).2.procs 7).map (·.nice) = some 5 := by
-  decide
-
-/-! ### the execution context does not matter: entry errno, cached status file
-
-  `stepX` is the call made with a given C `errno` on entry of the native layer and — inside
-  `Process.oneshot()` — a given cached copy of the status file. The driver runs `stepX`. -/
-
-/-- `nice()` returns the kernel's value for EVERY nice value (−1, the error sentinel of
-    getpriority(2), included) and EVERY value of errno on entry -/
-theorem C18_nice_get_exact (c : Cfg) (hg : c.Good) (k : Kernel) (pid : Nat) (st : PState) (hpid : pid ≠ 0)
-    (hst : k.procs pid = some st) (x : Ctx) :
-    stepX c k pid x (.nice none) = (.ok (.int st.nice), k) := by
-  rw [show stepX c k pid x (.nice none) = niceGetX c k pid x.errnoIn from rfl, niceGetX_eq c hg]
-  exact C18_get_nice c k pid st hpid hst
-
-/-- the same for `ionice()` (ioprio_get(2) reports failure by −1 only) -/
-theorem C18_ionice_get_exact (c : Cfg) (hg : c.Good) (k : Kernel) (pid : Nat) (st : PState) (hpid : pid ≠ 0)
-    (hst : k.procs pid = some st) (hcls : st.ioprio / 8192 ≤ 3) (x : Ctx) :
-    stepX c k pid x (.ionice none none) = (.ok (.ionice (st.ioprio / 8192) (st.ioprio % 8192)), k) := by
-  rw [show stepX c k pid x (.ionice none none) = ioniceGetX c k pid x.errnoIn from rfl, ioniceGetX_eq c hg]
-  exact C18_get_ionice c hg k pid st hpid hst hcls
-
-/-- the same for `cpu_affinity()` (sched_getaffinity(2): success is the return value 0) -/
-theorem C18_affinity_get_exact (c : Cfg) (hg : c.Good) (k : Kernel) (pid : Nat) (st : PState) (hpid : pid ≠ 0)
-    (hst : k.procs pid = some st) (hwf : WF k st) (x : Ctx) :
-    stepX c k pid x (.cpuAffinity none) = (.ok (.cpus st.affinity), k) := by
-  have h := C18_get_affinity c hg k pid st hpid hst hwf
-  simp only [step, cpuAffinity] at h
-  simp only [stepX, cpuAffinityX, cextAffinityGetE_eq c hg]
-  exact h
-
-/-- every call gives the same answer and the same kernel in every context; for the set form of
-    `cpu_affinity` this is claimed here only when the status file is read at call time and the
-    EINVAL fall-through is absent (the code as it is) — see `C18_invalid_cpus_repaired` and
-    `C18_oneshot_stale_status_counterexample` for the rest -/
-theorem C18_context_irrelevant (c : Cfg) (hg : c.Good) (k : Kernel) (pid : Nat) (x : Ctx) (req : Req)
-    (h : ∀ cpus, req = .cpuAffinity (some cpus) → x.statusMask = none ∧ c.einvalValueError = false) :
-    stepX c k pid x req = step c k pid req := by
-  cases req with
-  | nice v =>
-    cases v with
-    | none => exact niceGetX_eq c hg k pid _
-    | some v => rfl
-  | ionice cls v =>
-    cases cls with
-    | none =>
-      cases v with
-      | none => exact ioniceGetX_eq c hg k pid _
-      | some v => simp only [stepX, step, ioniceGetX_eq c hg]
-    | some cls => rfl
-  | cpuAffinity cpus =>
-    cases cpus with
-    | none => simp only [stepX, cpuAffinityX, step, cpuAffinity, cextAffinityGetE_eq c hg]
-    | some l =>
-      obtain ⟨h1, h2⟩ := h l rfl
-      simp only [stepX, cpuAffinityX, step, cpuAffinity, h1, h2, getEligibleCpusX, cpuAffinitySetWith_plain]
-  | rlimit res l => rfl
-
-/-- the seeded change C18-1 as a configuration: `errno = 0` dropped, test `priority == -1 && errno != 0` -/
-def cfgNoClear : Cfg := { cfg with prioGet := ⟨false, .sentinelAndErrno⟩ }
-
-/-- why errno must be cleared: nice −1 read with a stale errno (ENOENT) raises -/
-theorem C18_stale_errno_counterexample :
-    (stepX cfgNoClear { kWitness with procs := fun q => if q = 7 then some { stWitness with nice := -1 } else none }
-      7 ⟨2, none⟩ (.nice none)).1 = .exc (.osRaw 2) ∧
-    (stepX { cfg with prioGet := ⟨false, .errnoOnly⟩ } kWitness 7 ⟨2, none⟩ (.nice none)).1 = .exc (.osRaw 2) ∧
-    (stepX { cfg with prioGet := ⟨true, .sentinelOnly⟩ }
-      { kWitness with procs := fun q => if q = 7 then some { stWitness with nice := -1 } else none }
-      7 ⟨0, none⟩ (.nice none)).1 = .exc (.osRaw 0) := by
-  decide
-
-/-- the statement about only-unusable CPU lists at full strength, in every context -/
-def C18_invalid_cpus_FullX (c : Cfg) : Prop :=
-  ∀ (k : Kernel) (pid : Nat) (st : PState) (cpus : List Int) (x : Ctx), pid ≠ 0 → k.procs pid = some st →
-    WF k st → OnlyUnusableCpus k st cpus → stepX c k pid x (.cpuAffinity (some cpus)) = (.exc .valueError, k)
-
-/-- with `fixes/C18-ineligible-valueerror.diff` (fact `affinityEinvalRaisesValueError`) the full
-    statement holds, for every cached status file -/
-theorem C18_invalid_cpus_repaired (c : Cfg) (hrep : c.einvalValueError = true) : C18_invalid_cpus_FullX c := by
-  intro k pid st cpus x hpid hst hwf h
-  have hemp : cpus.isEmpty = false := by
-    cases cpus with
-    | nil => exact absurd rfl h.1
-    | cons _ _ => rfl
-  have hel : ∃ el, getEligibleCpusX k pid x.statusMask = some el := by
-    cases x.statusMask with
-    | none =>
-      simp only [getEligibleCpusX, getEligibleCpus, hst]
-      split <;> exact ⟨_, rfl⟩
-    | some m => exact ⟨_, rfl⟩
-  obtain ⟨el, hel⟩ := hel
-  simp only [stepX, cpuAffinityX, hemp, Bool.false_eq_true, if_false, hrep, hel]
-  exact cpuAffinitySetWith_refused el k pid _ (native_refuses_onlyUnusable c k pid st cpus hpid hst hwf.ncpu h)
-
-/-- With the repair, the refinement holds for EVERY request in EVERY context, without the
-    exclusion of the finding's region: whatever the specification promises, the call made with
-    any entry errno and any cached status file yields exactly that result and that kernel. -/
-theorem C18_refines_any_context (c : Cfg) (hg : c.Good) (hrep : c.einvalValueError = true) (k : Kernel)
-    (pid : Nat) (st : PState) (x : Ctx) (req : Req) (o : Out) (k' : Kernel) (hpid : pid ≠ 0)
+/-- the empty list / tuple / set / range selects ALL eligible CPUs (every possible CPU id of the
+    process's cpuset, also ids beyond the number of `cpuN` lines of `/proc/stat`), whatever the
+    current mask, in every context; afterwards `cpu_affinity()` returns them -/
+theorem C18_py_empty_selects_all_eligible (c : Cfg) (hg : c.Good) (hrep : c.einvalValueError = true) (k : Kernel)
+    (pid : Nat) (st : PState) (x : Ctx) (f : CpuForm) (hf : f ≠ .iterator) (hpid : pid ≠ 0)
     (hst : k.procs pid = some st) (hwf : WF k st)
-    (hs : Spec.expect k pid st req = .promised o k') : stepX c k pid x req = (o, k') := by
-  by_cases haff : ∃ cpus, req = .cpuAffinity (some cpus)
-  · obtain ⟨cpus, rfl⟩ := haff
-    have hel : ∃ el, getEligibleCpusX k pid x.statusMask = some el := by
-      cases x.statusMask with
-      | none =>
-        simp only [getEligibleCpusX, getEligibleCpus, hst]
-        split <;> exact ⟨_, rfl⟩
-      | some m => exact ⟨_, rfl⟩
-    obtain ⟨el, hel⟩ := hel
-    by_cases hreg : InFindingRegion k st (.cpuAffinity (some cpus))
-    · obtain ⟨hne, hall, _⟩ := hreg
-      have hou : OnlyUnusableCpus k st cpus :=
-        ⟨hne, fun y hy => ⟨by
-          have := hall y hy
-          have := hwf.ncpu
-          have := hwf.stat
-          simp only [fitsCLong, decide_eq_true_eq]; omega, Or.inr (Or.inr (hall y hy).2.2)⟩⟩
-      rw [expect_of_onlyUnusable pid hou] at hs
-      simp only [Verdict.promised.injEq] at hs
-      obtain ⟨rfl, rfl⟩ := hs
-      exact C18_invalid_cpus_repaired c hrep k pid st cpus x hpid hst hwf hou
-    · have h1 := C18_refines c hg k pid st _ o k' hpid hst hwf hreg hs
-      simp only [step, cpuAffinity, hg.count, Bool.false_eq_true, if_false, hg.empty] at h1
-      simp only [stepX, cpuAffinityX, hg.count, Bool.false_eq_true, if_false, hg.empty, hrep, hel]
-      rcases expect_affinity_set_shape hs with ho | ⟨ho, hk⟩
-      · subst ho
-        split at h1
-        · rename_i he
-          simp only [he, if_true]
-          exact cpuAffinitySetWith_ok _ _ k pid _ k' ((cpuAffinitySet_cases k pid _ _ _ h1).1 rfl)
-        · rename_i he
-          simp only [he, Bool.false_eq_true, if_false]
-          exact cpuAffinitySetWith_ok _ _ k pid _ k' ((cpuAffinitySet_cases k pid _ _ _ h1).1 rfl)
-      · subst ho
-        have hk' := hk.symm
-        subst hk'
-        split at h1
-        · rename_i he
-          simp only [he, if_true]
-          exact cpuAffinitySetWith_refused el k pid _ ((cpuAffinitySet_cases k pid _ _ _ h1).2 rfl)
-        · rename_i he
-          simp only [he, Bool.false_eq_true, if_false]
-          exact cpuAffinitySetWith_refused el k pid _ ((cpuAffinitySet_cases k pid _ _ _ h1).2 rfl)
-  · have hctx := C18_context_irrelevant c hg k pid x req (fun cpus h => absurd ⟨cpus, h⟩ haff)
-    rw [hctx]
-    refine C18_refines c hg k pid st req o k' hpid hst hwf ?_ hs
-    intro hr
-    cases req with
-    | nice v => exact hr
-    | ionice a b => exact hr
-    | rlimit a b => exact hr
-    | cpuAffinity cpus =>
-      cases cpus with
-      | none => exact hr
-      | some l => exact haff ⟨l, rfl⟩
+    (hperm : Spec.permitted k st (.cpuAffinity (some [])) = true) :
+    ∃ k', stepPy c k pid x (.cpuAffinity (some (f, []))) = (.ok .none, k') ∧
+      k'.procs pid = some { st with affinity := Spec.eligible k st } ∧
+      k'.log = k.log ++ [.affinity pid (Spec.eligible k st)] ∧
+      (∀ y, y ∈ Spec.eligible k st ↔ y < k.ncpu ∧ y ∈ st.cpuset) ∧
+      ∀ x', stepPy c k' pid x' (.cpuAffinity none) = (.ok (.cpus (Spec.eligible k st)), k') := by
+  refine ⟨Spec.replaced k pid { st with affinity := Spec.eligible k st } (.affinity pid (Spec.eligible k st)),
+    ?_, replaced_self _ _ _ _, rfl, mem_eligible k st, ?_⟩
+  · refine C18_refines_py c hg hrep k pid st x (.cpuAffinity (some (f, []))) _ _ hpid hst hwf
+      (Or.inr (not_overflowRegion_long (fun v hv => by cases hv))) ?_
+    rw [expectPy_affinity_set k pid st f [] (Or.inl hf), expectP_of_permitted hperm]
+    rfl
+  · intro x'
+    have hwf' : WF (Spec.replaced k pid { st with affinity := Spec.eligible k st } (.affinity pid (Spec.eligible k st)))
+        { st with affinity := Spec.eligible k st } :=
+      ⟨hwf.ncpu, asc_rangeFilter _ _, fun y hy => (mem_eligible k st y).1 hy, eligible_ne_nil hwf, hwf.ioprio,
+        hwf.rl, hwf.stat⟩
+    exact C18_py_get_affinity c hg _ pid _ x' hpid (replaced_self _ _ _ _) hwf'
 
-def cfgUnrepaired : Cfg := { cfg with einvalValueError := false }
-def cfgRepaired : Cfg := { cfg with einvalValueError := true }
-
-/-- without the repair the full statement is false (finding `C18-ineligible-oserror`) -/
-theorem C18_invalid_cpus_counterexampleX : ¬ C18_invalid_cpus_FullX cfgUnrepaired := by
-  intro h
-  have := h kWitness 7 stWitness [2] ⟨0, none⟩ (by decide) rfl wf_witness ⟨by decide, by decide⟩
-  have h2 : (stepX cfgUnrepaired kWitness 7 ⟨0, none⟩ (.cpuAffinity (some [2]))).1 = .exc (.osError .EINVAL) := by
-    decide
-  rw [this] at h2
-  cases h2
-
-/-- a process confined to CPUs 0-1 of four, currently on both -/
-def kBoth : Kernel :=
-  { kWitness with procs := fun q => if q = 7 then some { stWitness with affinity := [0, 1] } else none }
-
-/-- without the repair `oneshot()` changes the answer: the mask is `0-1` now (the diagnosis would
-    say ValueError), but a status file cached while the mask was `0` makes the same call raise
-    OSError(EINVAL); with the repair both give ValueError -/
-theorem C18_oneshot_stale_status_counterexample :
-    (stepX cfgUnrepaired kBoth 7 ⟨0, none⟩ (.cpuAffinity (some [2]))).1 = .exc .valueError ∧
-    (stepX cfgUnrepaired kBoth 7 ⟨0, some [0]⟩ (.cpuAffinity (some [2]))).1 = .exc (.osError .EINVAL) ∧
-    (stepX cfgRepaired kBoth 7 ⟨0, some [0]⟩ (.cpuAffinity (some [2]))).1 = .exc .valueError := by
-  decide
-
-/-! ### rlimit: RLIM_INFINITY, soft > hard, resource out of range -/
-
-/-- Python int ↔ `rlim_t`: −1 is RLIM_INFINITY (2^64−1) in both directions, and the conversion
-    round-trips on every 64-bit value -/
-theorem C18_rlim_conversion :
-    toU64 (-1) = 18446744073709551615 ∧ ofU64 18446744073709551615 = -1 ∧
-    (∀ n : Nat, n < 18446744073709551616 → toU64 (ofU64 n) = n) ∧
-    (∀ v : Int, fitsCLong v = true → ofU64 (toU64 v) = v) := by
-  refine ⟨by decide, by decide, fun n hn => ?_, fun v hv => ?_⟩
-  · unfold toU64 ofU64; split <;> split <;> omega
-  · simp only [fitsCLong, decide_eq_true_eq] at hv
-    unfold toU64 ofU64; split <;> split <;> omega
-
-/-- soft > hard (as unsigned 64-bit values, so `(-1, 5)` too): the kernel's EINVAL reaches the
-    caller as ValueError and nothing changes -/
-theorem C18_rlimit_soft_gt_hard (c : Cfg) (hg : c.Good) (k : Kernel) (pid : Nat) (st : PState) (res : Nat)
-    (s h : Int) (hpid : pid ≠ 0) (hst : k.procs pid = some st) (hres : res < 16)
-    (hs : fitsCLong s = true) (hh : fitsCLong h = true) (hgt : toU64 s > toU64 h) :
-    step c k pid (.rlimit res (some [s, h])) = (.exc .valueError, k) := by
-  have hfit : fitsCInt (res : Int) = true := by simp [fitsCInt]; omega
-  have hr : ¬ ((res : Int) < 0 ∨ (res : Int) ≥ 16) := by omega
-  simp [step, rlimitL, hpid, hg.pair, pyPrlimitSet, resourceCheck, hfit, hr, hs, hh, sysPrlimitSet,
-    resolve_pid k hpid, hst, hgt, wrapExc]
-
-/-- a resource number outside 0..15: ValueError for the get and the set form, nothing changes -/
-theorem C18_rlimit_bad_resource (c : Cfg) (k : Kernel) (pid : Nat) (res : Int) (l : Option (List Int))
-    (hpid : pid ≠ 0) (hfit : fitsCInt res = true) (hres : res < 0 ∨ res ≥ 16) :
-    step c k pid (.rlimit res l) = (.exc .valueError, k) := by
-  cases l with
-  | none => simp [step, rlimitL, hpid, pyPrlimitGet, resourceCheck, hfit, hres, wrapExc]
-  | some l =>
-    simp only [step, rlimitL, hpid, false_and, if_false]
-    split
-    · rfl
-    · simp [pyPrlimitSet, resourceCheck, hfit, hres, wrapExc]
-
-/-! ### the hypotheses are satisfiable -/
-
-example : WF kWitness stWitness ∧ kWitness.procs 7 = some stWitness ∧ (7 : Nat) ≠ 0 :=
-  ⟨wf_witness, rfl, by decide⟩
-example : ValidIonice 2 (some 5) ∧ ValidIonice 3 none := by unfold ValidIonice; simp
-example : ValidCpus kWitness stWitness [1, 0, 1] := ⟨by decide, by decide⟩
-example : ValidLimits kWitness stWitness 3 5 (-1) 5 Spec.rlimInfinity :=
-  ⟨by decide, by decide, by decide, by decide, by decide, Or.inl rfl⟩
-example : OnlyUnusableCpus kWitness stWitness [2, 9, -1] := ⟨by decide, by decide⟩
-example : ¬ InFindingRegion kWitness stWitness (.cpuAffinity (some [9])) := by
-  rintro ⟨_, h, _⟩; have := h 9 (by simp); simp [kWitness] at this
-example : InFindingRegion kWitness stWitness (.cpuAffinity (some [2])) := ⟨by decide, by decide, by decide⟩
-example : cfgRepaired.einvalValueError = true := rfl
-
-/-- proof obligation on the translator's fact (fix aebc260 landed): after the diagnosis loop an
-    EINVAL of `sched_setaffinity` is turned into ValueError; dropping that breaks this theorem -/
-theorem cfg_einval_is_valueError : cfg.einvalValueError = true := by decide
-
-/-- **C18_invalid_cpus.** The full statement (only nonexistent / ineligible CPUs → ValueError,
-    nothing changed), for the code as it is now, in every context. -/
-theorem C18_invalid_cpus : C18_invalid_cpus_FullX cfg :=
-  C18_invalid_cpus_repaired cfg cfg_einval_is_valueError
-
-/-- **C18_refines_code.** The refinement without any excluded region, for the code as it is now. -/
-theorem C18_refines_code (k : Kernel) (pid : Nat) (st : PState) (x : Ctx) (req : Req) (o : Out) (k' : Kernel)
-    (hpid : pid ≠ 0) (hst : k.procs pid = some st) (hwf : WF k st)
-    (hs : Spec.expect k pid st req = .promised o k') : stepX cfg k pid x req = (o, k') :=
-  C18_refines_any_context cfg cfg_good cfg_einval_is_valueError k pid st x req o k' hpid hst hwf hs
-example : fitsCLong (-1) = true ∧ fitsCLong 5 = true ∧ toU64 (-1) > toU64 5 := by decide
-example : fitsCInt 16 = true ∧ ((16 : Int) < 0 ∨ (16 : Int) ≥ 16) := by decide
-
-/-! ### worlds whose `/proc/stat` does not number the CPUs `0..N-1` (seeded C18-2)
-
-  `statCpus` = number of `cpuN` lines = `len(per_cpu_times())` is independent of which CPU ids the
-  process may use: every theorem above quantifies over all such worlds (`WF` only asks
-  `statCpus ≤ ncpu`). In particular `C18_empty_selects_all_eligible` / `C18_refines_code` hold for
-  them with the `range(1024)` request of the Linux branch. -/
-
-/-- four possible CPU ids, CPU 2 offline (three `cpuN` lines), the process on CPU 0 -/
-def stHole : PState := { stWitness with affinity := [0], cpuset := [0, 1, 3] }
-def kHole : Kernel := { kWitness with procs := fun q => if q = 7 then some stHole else none, statCpus := 3 }
-/-- a container: 16 ids, the cpuset is 14-15, a virtualised `/proc/stat` shows `cpu0`, `cpu1` -/
-def stLxc : PState := { stWitness with affinity := [14], cpuset := [14, 15] }
-def kLxc : Kernel :=
-  { kWitness with procs := fun q => if q = 7 then some stLxc else none, ncpu := 16, statCpus := 2 }
-
-/-- the request shape of the other platforms' branch, `range(len(cpu_times(percpu=True)))` -/
-def cfgCount : Cfg := { cfg with emptyAsksCount := true }
-
-theorem wf_hole : WF kHole stHole :=
-  ⟨by decide, by decide, by decide, by decide, by decide,
-    fun _ => ⟨by simp [stHole, stWitness], by simp [stHole, stWitness]⟩, by decide⟩
-
-theorem wf_lxc : WF kLxc stLxc :=
-  ⟨by decide, by decide, by decide, by decide, by decide,
-    fun _ => ⟨by simp [stLxc, stWitness], by simp [stLxc, stWitness]⟩, by decide⟩
-
-/-- why `cpu_affinity([])` must not ask for CPUs `0..N-1`, N the number of `cpuN` lines: with CPU 2
-    offline the eligible CPU 3 is left out; in the container none of `0..1` is eligible and the
-    call fails, the mask stays `[14]`. Both worlds are well-formed. -/
-theorem C18_empty_count_counterexample :
-    Spec.eligible kHole stHole = [0, 1, 3] ∧
-    ((stepX cfgCount kHole 7 ⟨0, none⟩ (.cpuAffinity (some []))).2.procs 7).map (·.affinity) = some [0, 1] ∧
-    Spec.eligible kLxc stLxc = [14, 15] ∧
-    (stepX { cfgCount with einvalValueError := true } kLxc 7 ⟨0, none⟩ (.cpuAffinity (some []))).1 = .exc .valueError ∧
-    ((stepX { cfgCount with einvalValueError := true } kLxc 7 ⟨0, none⟩ (.cpuAffinity (some []))).2.procs 7).map
-      (·.affinity) = some [14] := by
-  decide
-
-/-- … whereas the code as it is (`range(1024)`) selects all eligible CPUs in both worlds, in every
-    context (instances of `C18_refines_code`) -/
-theorem C18_empty_selects_all_eligible_with_holes (x : Ctx) :
-    ((stepX cfg kHole 7 x (.cpuAffinity (some []))).2.procs 7).map (·.affinity) = some [0, 1, 3] ∧
-    ((stepX cfg kLxc 7 x (.cpuAffinity (some []))).2.procs 7).map (·.affinity) = some [14, 15] := by
-  constructor
-  · rw [C18_refines_code kHole 7 stHole x (.cpuAffinity (some [])) _ _ (by decide) rfl wf_hole rfl]
-    decide
-  · rw [C18_refines_code kLxc 7 stLxc x (.cpuAffinity (some [])) _ _ (by decide) rfl wf_lxc rfl]
-    decide
-
-/-- a valid CPU whose id is ≥ the number of `cpuN` lines is set without complaint: the "invalid
-    CPU" test of the diagnosis loop (`cpu not in range(len(per_cpu_times()))`) runs only after the
-    native layer refused the whole list, i.e. when no listed CPU was usable anyway — it can put the
-    wrong CPU into the message of the ValueError, never turn a valid request into an error -/
-theorem C18_valid_cpu_beyond_stat_lines :
-    ((stepX cfgRepaired kHole 7 ⟨0, none⟩ (.cpuAffinity (some [3]))).1 = .ok .none) ∧
-    ((stepX cfgRepaired kHole 7 ⟨0, none⟩ (.cpuAffinity (some [3]))).2.procs 7).map (·.affinity) = some [3] ∧
-    ((stepX cfgRepaired kLxc 7 ⟨0, none⟩ (.cpuAffinity (some [15, 14]))).2.procs 7).map (·.affinity) = some [14, 15] ∧
-    (stepX cfgRepaired kLxc 7 ⟨0, none⟩ (.cpuAffinity (some [1]))).1 = .exc .valueError := by
-  decide
-
-/-! ### the arguments as Python objects (enum members, bools, tuples / sets / ranges / iterators)
-
-  `stepPy` is the call as the caller writes it; the driver runs `stepPy`. -/
+/-! ### the arguments as Python objects (enum members, bools, tuples / sets / ranges / iterators) -/
 
 /-- Whether an argument is a plain int, a member of an `IntEnum` (`IOPRIO_CLASS_*`, a resource
     wrapped in an enum) or a bool, and whether the CPUs / limits come as a list, tuple, set or range:
@@ -742,96 +485,40 @@ theorem C18_same_values_same_effect (c : Cfg) (k : Kernel) (pid : Nat) (x : Ctx)
 /-- a non-exhausted iterator of CPUs is as good as the list of what it yields -/
 theorem C18_cpu_iterator (c : Cfg) (k : Kernel) (pid : Nat) (st : PState) (x : Ctx) (l : List Int)
     (hst : k.procs pid = some st) (h : l ≠ []) :
-    stepPy c k pid x (.cpuAffinity (some (.iterator, l))) = stepX c k pid x (.cpuAffinity (some l)) := by
-  rw [stepPy_alive c hst, stepPyCore_iterator_nonempty c k pid x l h]
+    stepPy c k pid x (.cpuAffinity (some (.iterator, l))) = stepPy c k pid x (.cpuAffinity (some (.list, l))) := by
+  rw [stepPy_alive c hst, stepPy_alive c hst, stepPyCore_iterator_nonempty c k pid x l h]
+  rfl
 
-/-- **C18_refines_code_py.** The refinement for the code as it is, with the arguments as Python
-    objects: whatever the specification promises for the call as written, `stepPy` yields exactly
-    that result and that kernel, in every context. -/
-theorem C18_refines_code_py (k : Kernel) (pid : Nat) (st : PState) (x : Ctx) (r : PyReq) (o : Out) (k' : Kernel)
-    (hpid : pid ≠ 0) (hst : k.procs pid = some st) (hwf : WF k st)
-    (hs : Spec.expectPy k pid st r = .promised o k') : stepPy cfg k pid x r = (o, k') := by
-  unfold Spec.expectPy at hs
-  split at hs
-  · cases hs
-  · cases hs
-  · rename_i h1 h2
-    rw [stepPy_alive cfg hst]
-    by_cases hsz : r.Sized
-    · rw [stepPyCore_sized cfg k pid x r hsz]
-      exact C18_refines_code k pid st x _ o k' hpid hst hwf hs
-    · -- an iterator that is not covered by the two silent cases: a non-empty iterator of CPUs
-      cases r with
-      | nice v => exact absurd trivial hsz
-      | ionice a b => exact absurd trivial hsz
-      | cpuAffinity cpus =>
-        cases cpus with
-        | none => exact absurd trivial hsz
-        | some p =>
-          obtain ⟨f, l⟩ := p
-          have hf : f = .iterator := Classical.byContradiction fun hne => hsz hne
-          subst hf
-          have hl : l ≠ [] := fun hl => h1 (by rw [hl])
-          rw [stepPyCore_iterator_nonempty cfg k pid x l hl]
-          exact C18_refines_code k pid st x _ o k' hpid hst hwf hs
-      | rlimit res l =>
-        cases l with
-        | none => exact absurd trivial hsz
-        | some p =>
-          obtain ⟨f, l⟩ := p
-          have hf : f = .iterator := Classical.byContradiction fun hne => hsz hne
-          subst hf
-          exact absurd rfl (h2 res l)
-
-/-- Outside the statement (it names `cpu_affinity([])`, the empty list), noted as behaviour: an
+/-- Characterisation, OUTSIDE the statement (it names `cpu_affinity([])`, the empty list): an
     EXHAUSTED ITERATOR is truthy, so the front end's `if not cpus` does not fire, the platform layer
-    receives an empty list, the kernel refuses the empty mask, and the caller gets ValueError —
-    the mask is NOT reset to all eligible CPUs, nothing changes. Every context. -/
-theorem C18_empty_iterator_is_refused (c : Cfg) (hrep : c.einvalValueError = true) (k : Kernel) (pid : Nat)
-    (st : PState) (x : Ctx) (hpid : pid ≠ 0) (hst : k.procs pid = some st) :
+    receives an empty list, the kernel refuses the empty mask, and a caller permitted to change the
+    process gets ValueError — the mask is NOT reset to all eligible CPUs, nothing changes. -/
+theorem C18_empty_iterator_is_refused (c : Cfg) (hg : c.Good) (hrep : c.einvalValueError = true) (k : Kernel)
+    (pid : Nat) (st : PState) (x : Ctx) (hpid : pid ≠ 0) (hst : k.procs pid = some st)
+    (hperm : Spec.permitted k st (.cpuAffinity (some [])) = true) :
     stepPy c k pid x (.cpuAffinity (some (.iterator, []))) = (.exc .valueError, k) := by
-  have hel : ∃ el, getEligibleCpusX k pid x.statusMask = some el := by
-    cases x.statusMask with
-    | none =>
-      simp only [getEligibleCpusX, getEligibleCpus, hst]
-      split <;> exact ⟨_, rfl⟩
-    | some m => exact ⟨_, rfl⟩
-  obtain ⟨el, hel⟩ := hel
+  obtain ⟨el, hel⟩ := eligX_some hst x.statusMask
+  have hp := permAffinity_none hpid hst (by simpa [Spec.permitted] using hperm)
   rw [stepPy_alive c hst]
-  simp only [stepPyCore, hrep, hel, dedup_nil]
+  simp only [stepPyCore, hel, dedup_nil]
+  rw [cpuAffinitySetP_eq_With c _ k pid [] hg.setChecks.2.2 hp (Or.inr (fun v hv => by cases hv)), hrep]
   exact cpuAffinitySetWith_refused el k pid [] (Or.inr (cextAffinitySet_nil k pid st hpid hst))
 
-/-- limits given as an iterator: `len(limits)` raises TypeError before the kernel is asked anything -/
+/-- Characterisation, outside the statement: limits given as an iterator — `len(limits)` raises
+    TypeError before the kernel is asked anything -/
 theorem C18_limits_iterator_TypeError (c : Cfg) (k : Kernel) (pid : Nat) (st : PState) (x : Ctx) (res : Scalar)
     (l : List Int) (hpid : pid ≠ 0) (hst : k.procs pid = some st) :
     stepPy c k pid x (.rlimit res (some (.iterator, l))) = (.exc .typeError, k) := by
   rw [stepPy_alive c hst]
   simp [stepPyCore, hpid]
 
-/-- **C18_exception_no_effect.** EVERY call that raises — whatever the request, the forms of its
-    arguments, the configuration, the kernel, the context, valid or not, listed in the statement or
-    not (privilege failures, overflowing ints, unknown classes, a vanished process …) — leaves the
-    kernel exactly as it was: same state of every process, empty effect log. -/
-theorem C18_exception_no_effect (c : Cfg) (k : Kernel) (pid : Nat) (x : Ctx) (r : PyReq) (e : Exc) (k' : Kernel)
-    (h : stepPy c k pid x r = (.exc e, k')) : k' = k := by
-  have := excKeeps_stepPy c k pid x r e (by rw [h])
-  rw [h] at this
-  exact this
-
-/-- no call — any request in any form, any context, any configuration — changes another process
-    or a kernel parameter (`C18_others_unchanged` for `stepPy`) -/
-theorem C18_others_unchanged_py (c : Cfg) (k : Kernel) (pid : Nat) (hpid : pid ≠ 0) (x : Ctx) (r : PyReq) :
-    (∀ q, q ≠ pid → (stepPy c k pid x r).2.procs q = k.procs q) ∧
-    (stepPy c k pid x r).2.ncpu = k.ncpu ∧ (stepPy c k pid x r).2.nrOpen = k.nrOpen ∧
-    (stepPy c k pid x r).2.capResource = k.capResource ∧ (stepPy c k pid x r).2.self = k.self :=
-  let f := frame_stepPy c k hpid x r
-  ⟨f.others, f.ncpu, f.nrOpen, f.cap, f.self⟩
+/-! ### a vanished process; PID 0 -/
 
 /-- a vanished process: every get form answers NoSuchProcess (the kernel's ESRCH through
     `wrap_exceptions`), every set form — valid or not — answers NoSuchProcess before its arguments
     are looked at (the guard), a level without a class is still a ValueError; nothing changes -/
 theorem C18_gone_process (c : Cfg) (hg : c.Good) (k : Kernel) (pid : Nat) (x : Ctx) (hpid : pid ≠ 0)
-    (hgone : k.procs pid = none) :
+    (hgone : k.procs pid = none) (hn : k.ncpu ≤ 1024) :
     stepPy c k pid x (.nice none) = (.exc (.noSuchProcess pid), k) ∧
     stepPy c k pid x (.ionice none none) = (.exc (.noSuchProcess pid), k) ∧
     stepPy c k pid x (.cpuAffinity none) = (.exc (.noSuchProcess pid), k) ∧
@@ -853,13 +540,14 @@ theorem C18_gone_process (c : Cfg) (hg : c.Good) (k : Kernel) (pid : Nat) (x : C
     simp [ioniceGet, cextIoprioGet, sysIoprioGet, hr, hgone, wrapExc]
   · rw [hguard _ rfl]
     show cpuAffinityX c k pid x none = _
-    simp only [cpuAffinityX, cextAffinityGetE_eq c hg]
+    simp only [cpuAffinityX, cextAffinityGetL_eq c hg k pid _ hn]
     simp [cextAffinityGet, sysSchedGetaffinity, hr, hgone, ofSys, wrapExc]
   · intro res hfit hres
     rw [hguard _ rfl]
-    show rlimitL c k pid res.val none = _
+    show rlimitLX c k pid res.val none = _
     have h2 : ¬ (res.val < 0 ∨ res.val ≥ 16) := by omega
-    simp [rlimitL, hpid, pyPrlimitGet, resourceCheck, hfit, h2, sysPrlimitGet, hr, hgone, wrapExc]
+    simp [rlimitLX, hpid, pyPrlimitGetP, resourceCheck, hfit, h2, sysPrlimitGetP, permPrlimit_gone hpid hgone,
+      sysPrlimitGet, hr, hgone, wrapExc]
   · intro v
     rw [hguard _ rfl]
     show stepX c k pid x (.ionice none (some v.val)) = _
@@ -867,9 +555,195 @@ theorem C18_gone_process (c : Cfg) (hg : c.Good) (k : Kernel) (pid : Nat) (x : C
   · intro r h
     simp [stepPy, goneGuard, h, hpid, hgone]
 
+/-- `rlimit` never reaches the kernel for PID 0 (where `prlimit` would act on the caller) -/
+theorem C18_rlimit_pid0_refused (c : Cfg) (hg : c.Good) (k : Kernel) (x : Ctx) (res : Scalar)
+    (l : Option (LimForm × List Int)) : stepPy c k 0 x (.rlimit res l) = (.exc .valueError, k) := by
+  have hgd : goneGuard k 0 (.rlimit res l) = false := by simp [goneGuard]
+  simp only [stepPy, hgd, Bool.false_eq_true, if_false]
+  cases l with
+  | none => simp [stepPyCore, PyReq.erase, stepX, rlimitLX, hg.pid0]
+  | some p =>
+    obtain ⟨f, l⟩ := p
+    cases f <;> simp [stepPyCore, PyReq.erase, stepX, rlimitLX, hg.pid0]
+
+/-- why the other theorems assume `pid ≠ 0`: for the kernel PID 0 is the caller -/
+theorem C18_pid0_is_the_caller :
+    ((stepPy cfg { kWitness with self := 7 } 0 ⟨0, none⟩ (.nice (some (.int 5)))).2.procs 7).map (·.nice) = some 5 := by
+  decide
+
+/-! ### who may do what: privilege failures are noticed and change nothing
+
+  The set theorems above are conditional on `Spec.permitted` (the EPERM / EACCES sections of the
+  man pages). Where the caller is NOT permitted the kernel refuses; the native setters test the
+  return value of the system call (`Cfg.Good.setChecks`, facts `…ChecksRetval`), so the refusal
+  reaches the caller as AccessDenied and nothing changes. -/
+
+/-- `nice(v)` without CAP_SYS_NICE: on a process of another user → EPERM → AccessDenied; lowering the
+    value of one's own process below what RLIMIT_NICE allows → EACCES → AccessDenied; kernel unchanged -/
+theorem C18_py_nice_refused (c : Cfg) (hg : c.Good) (k : Kernel) (pid : Nat) (st : PState) (x : Ctx) (v : Scalar)
+    (hpid : pid ≠ 0) (hst : k.procs pid = some st) (hfit : fitsCInt v.val = true) (hcap : k.capNice = false) :
+    (st.foreign = true → stepPy c k pid x (.nice (some v)) = (.exc (.accessDenied pid), k)) ∧
+    (st.foreign = false → clampNice v.val < st.nice →
+      ¬ (20 - clampNice v.val ≤ ((st.rlimits 13).1 : Int)) →
+      stepPy c k pid x (.nice (some v)) = (.exc (.accessDenied pid), k)) := by
+  constructor
+  · intro hf
+    rw [stepPy_alive c hst]
+    show niceSetX c k pid v.val = _
+    simp [niceSetX, cextSetpriorityP, hfit, sysSetpriorityP, permNice, resolve_pid k hpid, hst, hf, hcap,
+      hg.setChecks.1, checkedCall, wrapExc]
+  · intro hf hlt hrl
+    rw [stepPy_alive c hst]
+    show niceSetX c k pid v.val = _
+    simp [niceSetX, cextSetpriorityP, hfit, sysSetpriorityP, permNice, resolve_pid k hpid, hst, hf, hcap,
+      hg.setChecks.1, checkedCall, wrapExc, canNice, rlimitNice, hlt, hrl]
+
+/-- an unprivileged caller lowering the nice value of its own process from 5 to 0 -/
+def kUnpriv : Kernel :=
+  { kWitness with capNice := false, procs := fun q => if q = 7 then some { stWitness with nice := 5 } else none }
+
+/-- why the native setters must test the return value (facts `setpriorityChecksRetval`, …): with
+    the code as it is the refused `nice(0)` raises AccessDenied; with the test dropped from
+    `psutil_posix_setpriority` the same call returns None although the kernel still reports 5 — a
+    "successful set" after which the kernel does not show the value -/
+theorem C18_unchecked_setter_counterexample :
+    (stepPy cfg kUnpriv 7 ⟨0, none⟩ (.nice (some (.int 0)))).1 = .exc (.accessDenied 7) ∧
+    (stepPy { cfg with setPrioChecks := false } kUnpriv 7 ⟨0, none⟩ (.nice (some (.int 0)))).1 = .ok .none ∧
+    ((stepPy { cfg with setPrioChecks := false } kUnpriv 7 ⟨0, none⟩ (.nice (some (.int 0)))).2.procs 7).map (·.nice)
+      = some 5 := by
+  decide
+
+/-! ### the sizing loop of the affinity getter (`psutil_proc_cpu_affinity_get`)
+
+  `C18_py_get_affinity` holds on every kernel with up to 1024 possible CPU ids: the first
+  `sched_getaffinity` with a 64-CPU mask fails with EINVAL when the kernel's mask is larger, and the
+  loop retries with 128, 256, … CPUs (`Cfg.Good.affLoop`, `Cfg.Good.affGet`; facts
+  `affinityGetInitBits`, `affinityGetRetryTest`, `affinityGetGrowth`, `affinityGetErrTest`). -/
+
+/-- a machine with 200 possible CPU ids -/
+def kBig : Kernel := { kWitness with ncpu := 200 }
+
+/-- on the 200-CPU machine the code as it is returns the mask (two EINVAL rounds: 64, 128, then 256
+    CPUs); with the errno test flipped (`errno == EINVAL` → give up) the first EINVAL is raised; with
+    a mask that never grows the function does not return; with the success test reading errno
+    instead of the return value the stale EINVAL of the previous round is raised after the call
+    that succeeded -/
+theorem C18_affinity_get_sizing_loop :
+    (stepPy cfg kBig 7 ⟨0, none⟩ (.cpuAffinity none)).1 = .ok (.cpus [0]) ∧
+    (stepPy { cfg with affLoop := ⟨64, 1, 2, 0⟩ } kBig 7 ⟨0, none⟩ (.cpuAffinity none)).1 = .exc (.osError .EINVAL) ∧
+    (stepPy { cfg with affLoop := ⟨64, 0, 1, 0⟩ } kBig 7 ⟨0, none⟩ (.cpuAffinity none)).1 = .exc .hang ∧
+    (stepPy { cfg with affLoop := ⟨64, 3, 2, 0⟩ } kBig 7 ⟨0, none⟩ (.cpuAffinity none)).1 = .exc (.osError .EINVAL) := by
+  decide
+
+/-! ### why errno must be cleared; why the status file must not decide; why not `range(N)` -/
+
+/-- the seeded change C18-1 as a configuration: `errno = 0` dropped, test `priority == -1 && errno != 0` -/
+def cfgNoClear : Cfg := { cfg with prioGet := ⟨false, .sentinelAndErrno⟩ }
+
+/-- nice −1 read with a stale errno (ENOENT) raises under the three broken errno protocols -/
+theorem C18_stale_errno_counterexample :
+    (stepPy cfgNoClear { kWitness with procs := fun q => if q = 7 then some { stWitness with nice := -1 } else none }
+      7 ⟨2, none⟩ (.nice none)).1 = .exc (.osRaw 2) ∧
+    (stepPy { cfg with prioGet := ⟨false, .errnoOnly⟩ } kWitness 7 ⟨2, none⟩ (.nice none)).1 = .exc (.osRaw 2) ∧
+    (stepPy { cfg with prioGet := ⟨true, .sentinelOnly⟩ }
+      { kWitness with procs := fun q => if q = 7 then some { stWitness with nice := -1 } else none }
+      7 ⟨0, none⟩ (.nice none)).1 = .exc (.osRaw 0) := by
+  decide
+
+def cfgUnrepaired : Cfg := { cfg with einvalValueError := false }
+
+/-- a process confined to CPUs 0-1 of four, currently on both -/
+def kBoth : Kernel :=
+  { kWitness with procs := fun q => if q = 7 then some { stWitness with affinity := [0, 1] } else none }
+
+/-- the superseded code (before aebc260, finding `C18-ineligible-oserror`, fixed): `cpu_affinity([2])`
+    on a process confined to 0-1 and running on 0 raised OSError(EINVAL); and `oneshot()` changed the
+    answer (status file cached while the mask was `0`); the code as it is gives ValueError in all three -/
+theorem C18_einval_fallthrough_needed :
+    (stepPy cfgUnrepaired kWitness 7 ⟨0, none⟩ (.cpuAffinity (some (.list, [2])))).1 = .exc (.osError .EINVAL) ∧
+    (stepPy cfgUnrepaired kBoth 7 ⟨0, none⟩ (.cpuAffinity (some (.list, [2])))).1 = .exc .valueError ∧
+    (stepPy cfgUnrepaired kBoth 7 ⟨0, some [0]⟩ (.cpuAffinity (some (.list, [2])))).1 = .exc (.osError .EINVAL) ∧
+    (stepPy cfg kWitness 7 ⟨0, none⟩ (.cpuAffinity (some (.list, [2])))).1 = .exc .valueError ∧
+    (stepPy cfg kBoth 7 ⟨0, some [0]⟩ (.cpuAffinity (some (.list, [2])))).1 = .exc .valueError := by
+  decide
+
+/-- four possible CPU ids, CPU 2 offline (three `cpuN` lines), the process on CPU 0 -/
+def stHole : PState := { stWitness with affinity := [0], cpuset := [0, 1, 3] }
+def kHole : Kernel := { kWitness with procs := fun q => if q = 7 then some stHole else none, statCpus := 3 }
+/-- a container: 16 ids, the cpuset is 14-15, a virtualised `/proc/stat` shows `cpu0`, `cpu1` -/
+def stLxc : PState := { stWitness with affinity := [14], cpuset := [14, 15] }
+def kLxc : Kernel :=
+  { kWitness with procs := fun q => if q = 7 then some stLxc else none, ncpu := 16, statCpus := 2 }
+
+/-- the request shape of the other platforms' branch, `range(len(cpu_times(percpu=True)))` (seeded C18-2) -/
+def cfgCount : Cfg := { cfg with emptyAsksCount := true }
+/-- the front end taking the CPUs for `[]` from `_get_eligible_cpus()` (the code before 1ed9255) -/
+def cfgStatusRange : Cfg := { cfg with emptyAsksAll := none }
+
+theorem wf_hole : WF kHole stHole :=
+  ⟨by decide, by decide, by decide, by decide, by decide,
+    fun _ => ⟨by simp [stHole, stWitness], by simp [stHole, stWitness]⟩, by decide⟩
+
+theorem wf_lxc : WF kLxc stLxc :=
+  ⟨by decide, by decide, by decide, by decide, by decide,
+    fun _ => ⟨by simp [stLxc, stWitness], by simp [stLxc, stWitness]⟩, by decide⟩
+
+/-- why `cpu_affinity([])` must ask for `range(1024)`: resolved through the status file, a mask
+    narrowed to `0-1` stays `0-1`; asked for CPUs `0..N-1` (N = number of `cpuN` lines) the eligible
+    CPU 3 is left out when CPU 2 is offline, and in the container nothing changes (ValueError);
+    and a valid CPU whose id is ≥ the number of `cpuN` lines is accepted -/
+theorem C18_empty_request_shape_counterexamples :
+    ((stepPy cfgStatusRange kBoth 7 ⟨0, none⟩ (.cpuAffinity (some (.list, [])))).2.procs 7).map (·.affinity)
+      = some [0, 1] ∧
+    Spec.eligible kHole stHole = [0, 1, 3] ∧
+    ((stepPy cfgCount kHole 7 ⟨0, none⟩ (.cpuAffinity (some (.list, [])))).2.procs 7).map (·.affinity) = some [0, 1] ∧
+    Spec.eligible kLxc stLxc = [14, 15] ∧
+    (stepPy cfgCount kLxc 7 ⟨0, none⟩ (.cpuAffinity (some (.list, [])))).1 = .exc .valueError ∧
+    ((stepPy cfg kHole 7 ⟨0, none⟩ (.cpuAffinity (some (.list, [3])))).2.procs 7).map (·.affinity) = some [3] ∧
+    (stepPy cfg kLxc 7 ⟨0, none⟩ (.cpuAffinity (some (.list, [1])))).1 = .exc .valueError := by
+  decide
+
+/-- … whereas the code as it is (`range(1024)`) selects all eligible CPUs in both worlds, in every
+    context (instances of `C18_py_empty_selects_all_eligible`) -/
+theorem C18_empty_selects_all_eligible_with_holes (x : Ctx) :
+    ((stepPy cfg kHole 7 x (.cpuAffinity (some (.list, [])))).2.procs 7).map (·.affinity) = some [0, 1, 3] ∧
+    ((stepPy cfg kLxc 7 x (.cpuAffinity (some (.list, [])))).2.procs 7).map (·.affinity) = some [14, 15] := by
+  constructor
+  · obtain ⟨k', h1, h2, _⟩ := C18_py_empty_selects_all_eligible cfg cfg_good cfg_einval_is_valueError kHole 7 stHole x
+      CpuForm.list (by decide) (by decide) rfl wf_hole rfl
+    rw [h1, h2]; decide
+  · obtain ⟨k', h1, h2, _⟩ := C18_py_empty_selects_all_eligible cfg cfg_good cfg_einval_is_valueError kLxc 7 stLxc x
+      CpuForm.list (by decide) (by decide) rfl wf_lxc rfl
+    rw [h1, h2]; decide
+
+/-! ### the hypotheses are satisfiable -/
+
+example : WF kWitness stWitness ∧ kWitness.procs 7 = some stWitness ∧ (7 : Nat) ≠ 0 :=
+  ⟨wf_witness, rfl, by decide⟩
+example : ValidIonice 2 (some 5) ∧ ValidIonice 3 none := by unfold ValidIonice; simp
+example : ValidIonice (Scalar.enum 2).val ((some (Scalar.bool true)).map Scalar.val) := by
+  unfold ValidIonice; simp [Scalar.val]
+example : ValidCpus kWitness stWitness [1, 0, 1] := ⟨by decide, by decide⟩
+example : ValidLimits kWitness stWitness 3 5 (-1) 5 Spec.rlimInfinity :=
+  ⟨by decide, by decide, by decide, by decide, by decide, Or.inl rfl⟩
+example : OnlyUnusableAny kWitness stWitness [2, 9, -1, 9223372036854775808] := ⟨by decide, by decide⟩
+example : AllLong [2, 9, -1] ∧ ¬ AllLong [9223372036854775808] := by
+  constructor
+  · intro v hv; simp at hv; rcases hv with rfl | rfl | rfl <;> decide
+  · intro h; have := h _ (List.mem_singleton.2 rfl); revert this; decide
+example : Spec.permitted kWitness stWitness (.nice (some (-5))) = true ∧
+    Spec.permitted kUnpriv { stWitness with nice := 5 } (.nice (some 0)) = false ∧
+    Spec.permitted kUnpriv { stWitness with nice := 5 } (.nice (some 7)) = true ∧
+    Spec.permitted kUnpriv stWitness (.ionice (some 1) none) = false ∧
+    Spec.permitted kUnpriv stWitness (.cpuAffinity (some [0])) = true := by decide
+example : OverflowRegion (.cpuAffinity (some [9223372036854775808])) :=
+  ⟨_, rfl, fun h => by have := h _ (List.mem_singleton.2 rfl); revert this; decide⟩
+example : ¬ OverflowRegion (PyReq.nice (some (.int 5))).erase := not_overflowRegion (fun _ e => by cases e)
 example : kWitness.procs 9 = none ∧ (9 : Nat) ≠ 0 ∧ (PyReq.nice (some (.int 5))).isSet = true := ⟨rfl, by decide, rfl⟩
 example : (PyReq.ionice (some (.enum 2)) (some (.bool true))).Sized := trivial
 example : (PyReq.ionice (some (.enum 2)) (some (.bool true))).erase = .ionice (some 2) (some 1) := rfl
 example : ¬ (PyReq.cpuAffinity (some (.iterator, [1]))).Sized := fun h => h rfl
+example : WF kBig stWitness ∧ kBig.procs 7 = some stWitness := ⟨⟨by decide, by decide, by decide, by decide,
+  by decide, fun _ => ⟨by simp [stWitness], by simp [stWitness]⟩, by decide⟩, rfl⟩
 
 end Psutil.C18
